@@ -1,5 +1,6 @@
 (* C10 - proofs about the registry model: invariants of load / collect / store / rename for an
-   arbitrary registry configuration, then the three-registry application. *)
+   arbitrary registry configuration (with the volatile registry object that survives a failed
+   Prepare inside one process), then the three-registry application with in-process retries. *)
 From Coq Require Import List NArith Bool Lia.
 From V Require Import Lib.Lex Lib.SMap Lib.Check Gen.Params C10_Registry.Model.
 Import ListNotations.
@@ -76,18 +77,37 @@ Proof.
   - lia.
 Qed.
 
+Lemma add_same_ok m n id :
+  mem_ok c m -> sm_get n (m_names m) = Some id -> mem_ok c (add m n id).
+Proof.
+  intros (Hs & He & Hi & Hl) Hg. destruct (He n id Hg) as [Hb Hn]. unfold mem_ok, add; cbn. split; [|split; [|split]].
+  - apply sm_put_sorted; exact Hs.
+  - intros n0 id0 H. rewrite sm_get_put in H. destruct (bytes_eq_dec n0 n) as [->|Hne].
+    + inversion H; subst. rewrite N.eqb_refl. split; [lia|reflexivity].
+    + destruct (He n0 id0 H) as [Hb0 Hn0]. split; [lia|]. destruct (id =? id0) eqn:E; [|exact Hn0].
+      apply N.eqb_eq in E; subst. congruence.
+  - intros i n0 [H|H]; [inversion H; subst; lia | apply Hi in H; lia].
+  - lia.
+Qed.
+
+(* the registry object and the stored rows do not contradict each other: a stored live row is
+   either already in the object with the same ID, or neither its name nor its ID is *)
+Definition compat (rs : rows) (m : mem) : Prop :=
+  forall n id, sm_get n rs = Some id -> skip c id = false ->
+    sm_get n (m_names m) = Some id \/ (sm_get n (m_names m) = None /\ id_name (m_ids m) id = None).
+
 Lemma load_rows_spec rs : forall m,
   NoDup (map fst rs) ->
   (forall n id, In (n, id) rs -> skip c id = false -> c_sys_last c < id < c_max c) ->
   (forall n1 n2 id, In (n1, id) rs -> In (n2, id) rs -> skip c id = false -> n1 = n2) ->
   mem_ok c m ->
-  (forall n id, In (n, id) rs -> sm_get n (m_names m) = None) ->
-  (forall n id, In (n, id) rs -> skip c id = false -> id_name (m_ids m) id = None) ->
-  exists m', load_rows c rs m = Some m' /\ mem_ok c m' /\
+  (forall n id, In (n, id) rs -> skip c id = false ->
+     sm_get n (m_names m) = Some id \/ (sm_get n (m_names m) = None /\ id_name (m_ids m) id = None)) ->
+  exists m', load_rows c rs m = (m', true) /\ mem_ok c m' /\
     (forall n id, sm_get n (m_names m') = Some id <->
                   (sm_get n (m_names m) = Some id \/ (In (n, id) rs /\ skip c id = false))).
 Proof.
-  induction rs as [|[n id] r IH]; intros m Hnd Hrange Hinj Hok Hfresh Hidfresh.
+  induction rs as [|[n id] r IH]; intros m Hnd Hrange Hinj Hok Hcomp.
   - exists m. split; [reflexivity|split; [exact Hok|]]. intros n id; split; [auto | intros [H|[[] _]]; exact H].
   - inversion Hnd as [|? ? Hnotin Hnd']; subst. cbn [load_rows].
     assert (Hrange' : forall n0 id0, In (n0, id0) r -> skip c id0 = false -> c_sys_last c < id0 < c_max c)
@@ -96,59 +116,34 @@ Proof.
       by (intros n1 n2 id0 H1 H2; apply (Hinj n1 n2 id0); right; assumption).
     destruct (skip c id) eqn:Esk.
     + destruct (IH m) as (m' & Hl & Hok' & Hiff); auto.
-      * intros n0 id0 Hin; apply (Hfresh n0 id0); right; exact Hin.
-      * intros n0 id0 Hin; apply (Hidfresh n0 id0); right; exact Hin.
+      * intros n0 id0 Hin; apply (Hcomp n0 id0); right; exact Hin.
       * exists m'. split; [exact Hl|split; [exact Hok'|]]. intros n0 id0; split.
         -- intros H. apply Hiff in H. destruct H as [H|[H1 H2]]; [left; exact H | right; split; [right; exact H1|exact H2]].
         -- intros [H|[[H|H] H2]]; apply Hiff; [left; exact H | inversion H; subst; congruence | right; split; assumption].
     + assert (Hr : c_sys_last c < id < c_max c) by (apply (Hrange n id); [left; reflexivity | exact Esk]).
       replace (c_tomb c && (id <=? c_sys_last c)) with false
         by (symmetry; apply andb_false_iff; right; apply N.leb_gt; lia).
+      assert (Hhead := Hcomp n id (or_introl eq_refl) Esk).
       assert (Hok1 : mem_ok c (add m n id)).
-      { apply add_ok; auto; [apply (Hfresh n id); left; reflexivity | apply (Hidfresh n id); [left; reflexivity|exact Esk]]. }
+      { destruct Hhead as [Hsame|[Hn Hi]]; [apply add_same_ok; auto | apply add_ok; auto]. }
+      assert (Hne_r : forall n0 id0, In (n0, id0) r -> n0 <> n).
+      { intros n0 id0 Hin ->. apply Hnotin. apply in_map_iff. exists (n, id0). split; auto. }
       destruct (IH (add m n id)) as (m' & Hl & Hok' & Hiff); auto.
-      * intros n0 id0 Hin. cbn. rewrite sm_get_put. destruct (bytes_eq_dec n0 n) as [->|Hne].
-        -- exfalso. apply Hnotin. apply in_map_iff. exists (n, id0). split; auto.
-        -- apply (Hfresh n0 id0); right; exact Hin.
-      * intros n0 id0 Hin Hsk0. cbn. destruct (id =? id0) eqn:E.
-        -- apply N.eqb_eq in E; subst id0. exfalso. apply Hnotin.
-           assert (n0 = n) by (apply (Hinj n0 n id); [right; exact Hin | left; reflexivity | exact Esk]). subst.
-           apply in_map_iff. exists (n, id). split; auto.
-        -- apply (Hidfresh n0 id0); [right; exact Hin|exact Hsk0].
+      * intros n0 id0 Hin Hsk0. cbn. rewrite sm_get_put.
+        destruct (bytes_eq_dec n0 n) as [->|Hne]; [exfalso; eapply Hne_r; eauto|].
+        destruct (Hcomp n0 id0 (or_intror Hin) Hsk0) as [Hs0|[Hn0 Hi0]]; [left; exact Hs0|right].
+        split; [exact Hn0|]. destruct (id =? id0) eqn:E; [|exact Hi0].
+        apply N.eqb_eq in E; subst id0. exfalso. apply Hne.
+        apply (Hinj n0 n id); [right; exact Hin | left; reflexivity | exact Esk].
       * exists m'. split; [exact Hl|split; [exact Hok'|]]. intros n0 id0; split.
         -- intros H. apply Hiff in H. cbn in H. rewrite sm_get_put in H. destruct H as [H|[H1 H2]].
            ++ destruct (bytes_eq_dec n0 n) as [->|Hne]; [inversion H; subst; right; split; [left; reflexivity|exact Esk] | left; exact H].
            ++ right; split; [right; exact H1|exact H2].
         -- intros H. apply Hiff. cbn. rewrite sm_get_put. destruct H as [H|[[H|H] H2]].
            ++ left. destruct (bytes_eq_dec n0 n) as [->|Hne]; [|exact H].
-              rewrite (Hfresh n id) in H by (left; reflexivity). discriminate.
+              destruct Hhead as [Hsame|[Hn _]]; congruence.
            ++ inversion H; subst. left. destruct (bytes_eq_dec n0 n0); [reflexivity|contradiction].
            ++ right; split; assumption.
-Qed.
-
-Lemma load_spec p :
-  rows_ok c (p_rows p) -> p_ver p <= 1 ->
-  exists m, load c p = LOk m /\ mem_ok c m /\
-    (reads_rows c p = true ->
-       forall n id, sm_get n (m_names m) = Some id <-> (sm_get n (p_rows p) = Some id /\ skip c id = false)) /\
-    (reads_rows c p = false -> m = mem0 c).
-Proof.
-  intros (Hs & Hr & Hi) Hv. unfold load.
-  replace (1 <? p_ver p) with false by (symmetry; apply N.ltb_ge; exact Hv).
-  destruct (reads_rows c p) eqn:Er.
-  - destruct (load_rows_spec (p_rows p) (mem0 c)) as (m & Hl & Hok & Hiff).
-    + apply (sorted_NoDup_keys _ Hs).
-    + intros n id Hin. apply Hr with n. apply sm_get_In; auto.
-    + intros n1 n2 id H1 H2. apply Hi; apply sm_get_In; auto.
-    + apply mem0_ok.
-    + reflexivity.
-    + reflexivity.
-    + rewrite Hl. exists m. split; [reflexivity|split; [exact Hok|split; [|discriminate]]].
-      intros _ n id; split.
-      * intros H. apply Hiff in H. cbn in H. destruct H as [H|[H1 H2]]; [discriminate|].
-        split; [apply sm_get_In; auto | exact H2].
-      * intros [H1 H2]. apply Hiff. right. split; [apply sm_get_In; auto | exact H2].
-  - exists (mem0 c). split; [reflexivity|split; [apply mem0_ok|split; [discriminate|reflexivity]]].
 Qed.
 
 (* ---------- collect ---------- *)
@@ -289,148 +284,6 @@ Proof.
   - intros n1 n2 id H1 H2 Hsk. eapply mem_ok_injective; eauto.
 Qed.
 
-(* ---------- prepare ---------- *)
-
-(* the stored rows are taken into account by this Prepare: either they are read, or every
-   stored live name is in the schema being prepared (so that its row is overwritten) *)
-Definition covers (p : pers) (names : list bytes) : Prop :=
-  reads_rows c p = true \/
-  (forall n id, sm_get n (p_rows p) = Some id -> skip c id = false -> In n names).
-
-Lemma store_fst p m f :
-  (fst (store c p m f) = p /\ snd (store c p m f) = false) \/
-  (p_rows (fst (store c p m f)) = put_all c (m_names m) (p_rows p) /\
-   (p_ver (fst (store c p m f)) = 1 \/ p_ver (fst (store c p m f)) = p_ver p)).
-Proof.
-  unfold store. destruct f; cbn; auto; destruct (p_ver p =? 1) eqn:E; cbn; auto.
-Qed.
-
-Lemma store_ver p m f : p_ver p = 1 -> p_ver (fst (store c p m f)) = 1.
-Proof. intros H. unfold store. rewrite H. destruct f; cbn; auto. Qed.
-
-Lemma prepare_cases p names f :
-  rows_ok c (p_rows p) ->
-  (p_ver p > 1 /\ prepare c p names f = (p, RErr 4)) \/
-  (p_ver p <= 1 /\ exists m0, load c p = LOk m0 /\ mem_ok c m0 /\
-     let s := collect_all c m0 names in
-     (cs_err s = true /\ prepare c p names f = (p, RErr 2)) \/
-     (cs_err s = false /\ cs_changed s = false /\ cs_mem s = m0 /\ prepare c p names f = (p, ROk m0)) \/
-     (cs_err s = false /\ cs_changed s = true /\
-      prepare c p names f = (fst (store c p (cs_mem s) f),
-                             if snd (store c p (cs_mem s) f) then ROk (cs_mem s) else RErr 1))).
-Proof.
-  intros Hrows. destruct (1 <? p_ver p) eqn:Ev.
-  - left. apply N.ltb_lt in Ev. split; [lia|]. unfold prepare, load. replace (1 <? p_ver p) with true by (symmetry; apply N.ltb_lt; lia). reflexivity.
-  - right. apply N.ltb_ge in Ev. split; [exact Ev|].
-    destruct (load_spec p Hrows Ev) as (m0 & Hl & Hok & _). exists m0.
-    split; [exact Hl|split; [exact Hok|]].
-    unfold prepare. rewrite Hl. cbn zeta.
-    destruct (cs_err (collect_all c m0 names)) eqn:Ee; [left; auto|right].
-    destruct (cs_changed (collect_all c m0 names)) eqn:Ec.
-    + right. split; [reflexivity|split; [reflexivity|]].
-      destruct (store c p (cs_mem (collect_all c m0 names)) f); reflexivity.
-    + left. destruct (collect_all_spec names (mkCst m0 false false) Hok) as (_ & _ & _ & _ & Hch & _).
-      unfold collect_all in *. cbn in Hch. destruct (Hch Ec) as [Em _]. rewrite Em.
-      split; [reflexivity|split; [reflexivity|split; reflexivity]].
-Qed.
-
-Lemma collect_all_from m0 names :
-  mem_ok c m0 ->
-  let s := collect_all c m0 names in
-  mem_ok c (cs_mem s) /\ extends m0 (cs_mem s) /\
-  (cs_err s = false -> forall n, In n names -> exists id, sm_get n (m_names (cs_mem s)) = Some id).
-Proof.
-  intros Hok. destruct (collect_all_spec names (mkCst m0 false false) Hok) as (H1 & H2 & _ & H4 & _).
-  cbn in *. split; [exact H1|split; [exact H2|exact H4]].
-Qed.
-
-Lemma absorbed_after_collect p names m0 :
-  rows_ok c (p_rows p) -> p_ver p <= 1 -> covers p names -> load c p = LOk m0 ->
-  let s := collect_all c m0 names in
-  cs_err s = false -> absorbed (p_rows p) (cs_mem s).
-Proof.
-  intros Hrows Hv Hcov Hl s Herr n id Hg Hsk.
-  destruct (load_spec p Hrows Hv) as (m0' & Hl' & Hok & Hread & Hnoread).
-  rewrite Hl in Hl'. inversion Hl'; subst m0'.
-  destruct (collect_all_from m0 names Hok) as (_ & Hext & Hall).
-  destruct (reads_rows c p) eqn:Er.
-  - exists id. apply Hext. apply (Hread eq_refl). split; assumption.
-  - destruct Hcov as [Hc|Hc]; [congruence|]. apply Hall; auto. eapply Hc; eauto.
-Qed.
-
-(* T (invariant): Prepare keeps the stored rows well-formed *)
-Theorem prepare_rows_ok p names f :
-  rows_ok c (p_rows p) -> covers p names -> rows_ok c (p_rows (fst (prepare c p names f))).
-Proof.
-  intros Hrows Hcov. destruct (prepare_cases p names f Hrows) as [[_ E]|[Hv (m0 & Hl & Hok & Hc)]].
-  - rewrite E. exact Hrows.
-  - cbn zeta in Hc. destruct Hc as [[_ E]|[(_ & _ & _ & E)|(Herr & _ & E)]]; rewrite E; cbn [fst]; auto.
-    destruct (store_fst p (cs_mem (collect_all c m0 names)) f) as [[E' _]|[E' _]]; rewrite E'; auto.
-    destruct (collect_all_from m0 names Hok) as (Hok' & _).
-    apply store_rows_ok; auto. apply Hrows.
-    eapply absorbed_after_collect; eauto.
-Qed.
-
-Lemma prepare_ver p names f : p_ver p = 1 -> p_ver (fst (prepare c p names f)) = 1.
-Proof.
-  intros H. unfold prepare. destruct (load c p); auto. cbn zeta.
-  destruct (cs_err _); auto. destruct (cs_changed _); auto.
-  pose proof (store_ver p (cs_mem (collect_all c m names)) f H).
-  destruct (store c p _ f); cbn in *; auto.
-Qed.
-
-(* T: what a successful Prepare hands to the application *)
-Theorem prepare_mem_ok p names f p' m :
-  rows_ok c (p_rows p) -> covers p names -> prepare c p names f = (p', ROk m) ->
-  mem_ok c m /\
-  (forall n, In n names -> exists id, sm_get n (m_names m) = Some id) /\
-  (forall n id, sm_get n (m_names m) = Some id -> sm_get n (p_rows p') = Some id) /\
-  (reads_rows c p = true -> forall n id, sm_get n (p_rows p) = Some id -> skip c id = false ->
-                                         sm_get n (m_names m) = Some id).
-Proof.
-  intros Hrows Hcov E. destruct (prepare_cases p names f Hrows) as [[_ E']|[Hv (m0 & Hl & Hok & Hc)]]; [congruence|].
-  destruct (load_spec p Hrows Hv) as (m0' & Hl' & _ & Hread & Hnoread). rewrite Hl in Hl'; inversion Hl'; subst m0'.
-  destruct (collect_all_from m0 names Hok) as (Hok' & Hext & Hall).
-  cbn zeta in Hc. destruct Hc as [[_ E']|[(Herr & _ & Em & E')|(Herr & _ & E')]]; rewrite E' in E.
-  - discriminate.
-  - inversion E; subst p' m. rewrite Em in Hall.
-    split; [exact Hok|]. split; [exact (Hall Herr)|]. split.
-    + intros n id Hg. destruct (reads_rows c p) eqn:Er.
-      * apply (Hread eq_refl) in Hg. tauto.
-      * rewrite (Hnoread eq_refl) in Hg. cbn in Hg. discriminate.
-    + intros Hr n id Hg Hsk. apply (Hread Hr). tauto.
-  - destruct (snd (store c p (cs_mem (collect_all c m0 names)) f)) eqn:Eok; inversion E; subst p' m.
-    split; [exact Hok'|]. split; [exact (Hall Herr)|]. split.
-    + intros n id Hg. destruct (store_fst p (cs_mem (collect_all c m0 names)) f) as [[Ef Es]|[Ef _]]; [congruence|].
-      rewrite Ef. rewrite store_rows_get by (auto; apply Hrows). rewrite Hg. reflexivity.
-    + intros Hr n id Hg Hsk. apply Hext. apply (Hread Hr). tauto.
-Qed.
-
-(* T (stable): a live row of a registry whose rows are read survives every Prepare *)
-Theorem prepare_stable p names f n id :
-  rows_ok c (p_rows p) -> reads_rows c p = true ->
-  sm_get n (p_rows p) = Some id -> skip c id = false ->
-  sm_get n (p_rows (fst (prepare c p names f))) = Some id.
-Proof.
-  intros Hrows Hr Hg Hsk. destruct (prepare_cases p names f Hrows) as [[_ E]|[Hv (m0 & Hl & Hok & Hc)]].
-  - rewrite E; exact Hg.
-  - destruct (load_spec p Hrows Hv) as (m0' & Hl' & _ & Hread & _). rewrite Hl in Hl'; inversion Hl'; subst m0'.
-    destruct (collect_all_from m0 names Hok) as (Hok' & Hext & _).
-    cbn zeta in Hc. destruct Hc as [[_ E]|[(_ & _ & _ & E)|(_ & _ & E)]]; rewrite E; cbn [fst]; auto.
-    destruct (store_fst p (cs_mem (collect_all c m0 names)) f) as [[Ef _]|[Ef _]]; rewrite Ef; auto.
-    rewrite store_rows_get by (auto; apply Hrows).
-    rewrite (Hext n id); auto. apply (Hread Hr). tauto.
-Qed.
-
-(* T (limit): running out of IDs is an error that stores nothing; with enough room it cannot happen *)
-Theorem prepare_limit_keeps p names f p' : prepare c p names f = (p', RErr 2) -> p' = p.
-Proof.
-  unfold prepare. destruct (load c p); try (intros H; inversion H; reflexivity).
-  cbn zeta. destruct (cs_err _); [intros H; inversion H; reflexivity|].
-  destruct (cs_changed _); [|discriminate].
-  destruct (store c p _ f) as [p1 []]; intros H; inversion H.
-Qed.
-
 Lemma collect_room s n :
   mem_ok c (cs_mem s) -> m_last (cs_mem s) + 1 < c_max c -> cs_err (collect c s n) = cs_err s.
 Proof.
@@ -448,62 +301,226 @@ Proof.
   rewrite IH; auto; [apply collect_room; auto; lia | lia].
 Qed.
 
-Theorem prepare_room p names f m0 :
-  rows_ok c (p_rows p) -> load c p = LOk m0 ->
-  m_last m0 + N.of_nat (length names) < c_max c ->
-  forall p', prepare c p names f <> (p', RErr 2).
+(* ---------- prepare, on the registry object of the process ---------- *)
+
+(* the code as pinned: rows are read whether or not the version row exists (F20 repaired), and the
+   pending-changes counter is cleared only by a store() whose two writes went through *)
+Hypothesis Hread : c_needver c = false.
+Hypothesis Hlate : c_late c = true.
+
+Definition loaded (rs : rows) (m : mem) : Prop :=
+  forall n id, sm_get n rs = Some id -> skip c id = false -> sm_get n (m_names m) = Some id.
+
+Definition persisted (rs : rows) (m : mem) : Prop :=
+  forall n id, sm_get n (m_names m) = Some id -> sm_get n rs = Some id.
+
+(* the invariant tying the volatile registry object to the stored rows: well-formed, compatible,
+   and - the point of the changes counter - everything in it is stored unless changes are pending *)
+Definition vol_ok (p : pers) (v : vol) : Prop :=
+  mem_ok c (v_mem v) /\ compat (p_rows p) (v_mem v) /\
+  (v_changed v = false -> persisted (p_rows p) (v_mem v)).
+
+Lemma loaded_compat rs m : loaded rs m -> compat rs m.
+Proof. intros H n id Hg Hsk. left. apply H; assumption. Qed.
+
+Lemma vol0_ok p : vol_ok p (vol0 c).
 Proof.
-  intros Hrows Hl Hroom p' E.
-  destruct (prepare_cases p names f Hrows) as [[_ E']|[Hv (m0' & Hl' & Hok & Hc)]]; [congruence|].
-  rewrite Hl in Hl'; inversion Hl'; subst m0'.
-  pose proof (collect_all_room names (mkCst m0 false false) Hok Hroom) as Hne. cbn in Hne.
-  cbn zeta in Hc. unfold collect_all in Hc. rewrite Hne in Hc.
-  destruct Hc as [[? _]|[(_ & _ & _ & E')|(_ & _ & E')]]; try discriminate; rewrite E' in E; inversion E.
-  destruct (snd (store c p _ f)); discriminate.
+  split; [apply mem0_ok|split].
+  - intros n id _ _. right. split; reflexivity.
+  - intros _ n id H. cbn in H. discriminate.
+Qed.
+
+Lemma reads_le1 ver : ver <= 1 -> reads c ver = true.
+Proof.
+  intros H. unfold reads. rewrite Hread. cbn. destruct (ver =? 1) eqn:E1; auto. apply N.eqb_neq in E1.
+  replace (ver =? 0) with true; [reflexivity|]. symmetry. apply N.eqb_eq. lia.
+Qed.
+
+Lemma load_vol_spec rs m :
+  rows_ok c rs -> mem_ok c m -> compat rs m ->
+  exists m1, load_rows c rs m = (m1, true) /\ mem_ok c m1 /\ loaded rs m1 /\ extends m m1 /\
+             (persisted rs m -> persisted rs m1) /\
+             (forall n id, sm_get n (m_names m1) = Some id ->
+                sm_get n (m_names m) = Some id \/ (sm_get n rs = Some id /\ skip c id = false)).
+Proof.
+  intros (Hs & Hr & Hi) Hok Hcomp.
+  destruct (load_rows_spec rs m) as (m1 & Hl & Hok1 & Hiff).
+  - apply (sorted_NoDup_keys _ Hs).
+  - intros n id Hin. apply Hr with n. apply sm_get_In; auto.
+  - intros n1 n2 id H1 H2. apply Hi; apply sm_get_In; auto.
+  - exact Hok.
+  - intros n id Hin. apply Hcomp. apply sm_get_In; auto.
+  - exists m1. split; [exact Hl|split; [exact Hok1|split; [|split; [|split]]]].
+    + intros n id Hg Hsk. apply Hiff. right. split; [apply sm_get_In; auto|exact Hsk].
+    + intros n id Hg. apply Hiff. left. exact Hg.
+    + intros Hp n id Hg. apply Hiff in Hg. destruct Hg as [Hg|[Hin _]]; [apply Hp; exact Hg|apply sm_get_In; auto].
+    + intros n id Hg. apply Hiff in Hg. destruct Hg as [Hg|[Hin Hsk]]; [left; exact Hg|right; split; [apply sm_get_In; auto|exact Hsk]].
+Qed.
+
+Lemma store_rows_from m rs n id :
+  mem_ok c m -> sorted rs -> absorbed rs m ->
+  sm_get n (put_all c (m_names m) rs) = Some id -> skip c id = false -> sm_get n (m_names m) = Some id.
+Proof.
+  intros Hok Hsr Habs H Hsk. rewrite store_rows_get in H by auto.
+  destruct (sm_get n (m_names m)) as [id'|] eqn:Eg; [exact H|].
+  destruct (Habs n id H Hsk) as [id' Hid']. congruence.
+Qed.
+
+Lemma loaded_absorbed rs m : loaded rs m -> absorbed rs m.
+Proof. intros H n id Hg Hsk. exists id. apply H; assumption. Qed.
+
+(* everything Prepare guarantees, whatever its outcome *)
+Definition prep_post (p : pers) (names : list bytes) (p' : pers) (v' : vol) (r : rres) : Prop :=
+  rows_ok c (p_rows p') /\ vol_ok p' v' /\
+  (forall n id, sm_get n (p_rows p) = Some id -> skip c id = false -> sm_get n (p_rows p') = Some id) /\
+  (p_ver p' = p_ver p \/ p_ver p' = 1) /\
+  (forall m, r = ROk m ->
+     m = v_mem v' /\ v_changed v' = false /\ loaded (p_rows p') m /\
+     (forall n, In n names -> exists id, sm_get n (m_names m) = Some id)) /\
+  (r = RErr 2 -> p' = p) /\
+  (r = RErr 1 -> v_changed v' = true).
+
+Lemma vol_ok_ver p m ch ver ver' : vol_ok p (mkVol m ch ver) -> vol_ok p (mkVol m ch ver').
+Proof. intros H; exact H. Qed.
+
+Theorem prepare_spec p v names f p' v' r :
+  rows_ok c (p_rows p) -> vol_ok p v -> prepare c p v names f = (p', v', r) -> prep_post p names p' v' r.
+Proof.
+  intros Hrows (Hok & Hcomp & Hpers) E. unfold prepare in E.
+  destruct (1 <? merged_ver p v) eqn:Ev.
+  { inversion E; subst. split; [exact Hrows|]. split; [split; [exact Hok|split; [exact Hcomp|exact Hpers]]|].
+    split; [auto|]. split; [auto|]. split; [discriminate|]. split; discriminate. }
+  apply N.ltb_ge in Ev. rewrite (reads_le1 _ Ev) in E.
+  destruct (load_vol_spec (p_rows p) (v_mem v) Hrows Hok Hcomp) as (m1 & Hl & Hok1 & Hld1 & Hext1 & Hp1 & Hfrom1).
+  rewrite Hl in E. cbn [negb] in E. cbn iota in E.
+  destruct (collect_all_spec names (mkCst m1 (v_changed v) false) Hok1) as (Hok2 & Hext2 & _ & Hall & Hch & _).
+  fold (collect_all c m1 (v_changed v) names) in Hok2, Hext2, Hall, Hch. cbn [cs_mem cs_changed cs_err] in *.
+  set (s := collect_all c m1 (v_changed v) names) in *.
+  assert (Hld2 : loaded (p_rows p) (cs_mem s)) by (intros n id Hg Hsk; apply Hext2, Hld1; assumption).
+  assert (Hpers2 : cs_changed s = false -> persisted (p_rows p) (cs_mem s)).
+  { intros Hc. destruct (Hch Hc) as [Em Ec]. rewrite Em. apply Hp1. apply Hpers. exact Ec. }
+  destruct (cs_err s) eqn:Ee.
+  { inversion E; subst. split; [exact Hrows|]. split; [split; [exact Hok2|split; [apply loaded_compat; exact Hld2|exact Hpers2]]|].
+    split; [auto|]. split; [auto|]. split; [discriminate|]. split; [reflexivity|discriminate]. }
+  destruct (cs_changed s) eqn:Ec.
+  2:{ inversion E; subst. split; [exact Hrows|].
+      split; [split; [exact Hok2|split; [apply loaded_compat; exact Hld2|intros _; apply Hpers2; reflexivity]]|].
+      split; [auto|]. split; [auto|]. split; [|split; discriminate].
+      intros m Hm. inversion Hm; subst m. split; [reflexivity|]. split; [reflexivity|]. split; [exact Hld2|apply Hall; reflexivity]. }
+  (* the store path *)
+  pose proof Hrows as (Hsr & _).
+  set (rs' := put_all c (m_names (cs_mem s)) (p_rows p)).
+  assert (Hrows' : rows_ok c rs') by (apply store_rows_ok; auto; apply loaded_absorbed; exact Hld2).
+  assert (Hld' : loaded rs' (cs_mem s)).
+  { intros n id Hg Hsk. eapply store_rows_from; eauto. apply loaded_absorbed; exact Hld2. }
+  assert (Hpers' : persisted rs' (cs_mem s)).
+  { intros n id Hg. unfold rs'. rewrite store_rows_get by auto. rewrite Hg. reflexivity. }
+  assert (Hstable' : forall n id, sm_get n (p_rows p) = Some id -> skip c id = false -> sm_get n rs' = Some id).
+  { intros n id Hg Hsk. apply Hpers'. apply Hld2; assumption. }
+  assert (Hbound : forall n, In n names -> exists id, sm_get n (m_names (cs_mem s)) = Some id) by (apply Hall; reflexivity).
+  rewrite Hlate in E. unfold store in E. fold rs' in E.
+  destruct f; cbn in E; destruct (merged_ver p v =? 1) eqn:E1; cbn in E; inversion E; subst; clear E; cbn [p_rows p_ver v_mem v_changed];
+    (split; [first [exact Hrows'|exact Hrows]|]);
+    (split; [split; [exact Hok2|split; [first [apply loaded_compat; exact Hld'|apply loaded_compat; exact Hld2]|
+                                         first [intros _; exact Hpers'|discriminate]]]|]);
+    (split; [first [exact Hstable'|auto]|]); (split; [auto|]);
+    (split; [first [discriminate|intros m Hm; inversion Hm; subst m; split; [reflexivity|]; split; [reflexivity|]; split; [exact Hld'|exact Hbound]]|]);
+    (split; [discriminate|first [reflexivity|discriminate]]).
+Qed.
+
+(* T (what the retry relies on): a store that failed leaves the changes pending *)
+Theorem failed_store_keeps_changes p v names f p' v' :
+  rows_ok c (p_rows p) -> vol_ok p v -> prepare c p v names f = (p', v', RErr 1) -> v_changed v' = true.
+Proof. intros Hrows Hv E. apply (prepare_spec _ _ _ _ _ _ _ Hrows Hv E). reflexivity. Qed.
+
+(* T (limit): running out of IDs is an error that stores nothing; with enough room it cannot happen *)
+Theorem prepare_limit_keeps p v names f p' v' :
+  rows_ok c (p_rows p) -> vol_ok p v -> prepare c p v names f = (p', v', RErr 2) -> p' = p.
+Proof. intros Hrows Hv E. apply (prepare_spec _ _ _ _ _ _ _ Hrows Hv E). reflexivity. Qed.
+
+Theorem prepare_room p v names f m1 :
+  rows_ok c (p_rows p) -> vol_ok p v ->
+  load_rows c (p_rows p) (v_mem v) = (m1, true) ->
+  m_last m1 + N.of_nat (length names) < c_max c ->
+  forall p' v', prepare c p v names f <> (p', v', RErr 2).
+Proof.
+  intros Hrows (Hok & Hcomp & _) Hl Hroom p' v' E. unfold prepare in E.
+  destruct (1 <? merged_ver p v) eqn:Ev; [inversion E|]. apply N.ltb_ge in Ev. rewrite (reads_le1 _ Ev) in E.
+  destruct (load_vol_spec (p_rows p) (v_mem v) Hrows Hok Hcomp) as (m1' & Hl' & Hok1 & _).
+  rewrite Hl in Hl'; inversion Hl'; subst m1'. rewrite Hl in E. cbn [negb] in E. cbn iota in E.
+  pose proof (collect_all_room names (mkCst m1 (v_changed v) false) Hok1 Hroom) as Hne. cbn in Hne.
+  unfold collect_all in E. rewrite Hne in E.
+  destruct (cs_changed _); [|inversion E].
+  destruct (store c p _ _ f) as [[p1 ver1] []]; inversion E.
 Qed.
 
 (* ---------- rename ---------- *)
 
 Hypothesis Htomb : c_tomb c = true.
 
+Lemma store_fst p ver m f :
+  store c p ver m f = (p, ver, false) \/
+  (p_rows (fst (fst (store c p ver m f))) = put_all c (m_names m) (p_rows p) /\
+   (p_ver (fst (fst (store c p ver m f))) = p_ver p \/ p_ver (fst (fst (store c p ver m f))) = 1)).
+Proof. unfold store. destruct f; cbn; auto; destruct (ver =? 1); cbn; auto. Qed.
+
+Lemma store_ver p ver m f : p_ver p = 1 -> p_ver (fst (fst (store c p ver m f))) = 1.
+Proof. intros H. unfold store. destruct f; cbn; auto; destruct (ver =? 1); cbn; auto. Qed.
+
+Lemma load0_spec rs :
+  rows_ok c rs ->
+  exists m, load_rows c rs (mem0 c) = (m, true) /\ mem_ok c m /\
+    (forall n id, sm_get n (m_names m) = Some id <-> (sm_get n rs = Some id /\ skip c id = false)).
+Proof.
+  intros Hrows. destruct (load_vol_spec rs (mem0 c) Hrows mem0_ok) as (m & Hl & Hok & Hld & _ & _ & Hfrom).
+  - intros n id _ _. right. split; reflexivity.
+  - exists m. split; [exact Hl|split; [exact Hok|]]. intros n id; split.
+    + intros H. destruct (Hfrom n id H) as [H0|H0]; [cbn in H0; discriminate|exact H0].
+    + intros [H1 H2]. apply Hld; assumption.
+Qed.
+
 Lemma rename_cases p old new f :
   rows_ok c (p_rows p) ->
   (fst (rename c p old new f) = p /\ snd (rename c p old new f) <> 0) \/
-  (exists m id, load c p = LOk m /\ reads_rows c p = true /\ old <> new /\
-     sm_get old (m_names m) = Some id /\ sm_get new (m_names m) = None /\
+  (exists id, old <> new /\
+     sm_get old (p_rows p) = Some id /\ skip c id = false /\
+     (forall i, sm_get new (p_rows p) = Some i -> skip c i = true) /\
      (forall n, sm_get n (p_rows (fst (rename c p old new f))) =
                 if bytes_eq_dec n new then Some id else if bytes_eq_dec n old then Some 0 else sm_get n (p_rows p)) /\
      sorted (p_rows (fst (rename c p old new f))) /\
-     (p_ver p = 1 -> p_ver (fst (rename c p old new f)) = 1)).
+     (p_ver (fst (rename c p old new f)) = p_ver p \/ p_ver (fst (rename c p old new f)) = 1)).
 Proof.
   intros Hrows. unfold rename. destruct (lex_eqb old new) eqn:Eon; [left; split; [reflexivity|discriminate]|].
   apply lex_eqb_neq in Eon.
-  destruct (1 <? p_ver p) eqn:Ev.
-  { left. unfold load. rewrite Ev. split; [reflexivity|discriminate]. }
-  apply N.ltb_ge in Ev. destruct (load_spec p Hrows Ev) as (m & Hl & Hok & Hread & Hnoread). rewrite Hl.
+  destruct (1 <? p_ver p) eqn:Ev; [left; split; [reflexivity|discriminate]|].
+  apply N.ltb_ge in Ev. rewrite (reads_le1 _ Ev).
+  destruct (load0_spec (p_rows p) Hrows) as (m & Hl & Hok & Hread0). rewrite Hl. cbn [negb]. cbn iota.
   destruct (sm_get old (m_names m)) as [id|] eqn:Eo; [|left; split; [reflexivity|discriminate]].
   destruct (sm_get new (m_names m)) eqn:En; [left; split; [reflexivity|discriminate]|].
-  destruct (reads_rows c p) eqn:Er; [|rewrite (Hnoread eq_refl) in Eo; cbn in Eo; discriminate].
   set (m' := mkMem _ _ _).
-  pose proof (store_fst p m' f) as Hsf. pose proof (store_ver p m' f) as Hsv.
-  destruct (store c p m' f) as [p1 ok]. cbn [fst snd] in *.
-  destruct Hsf as [[Ef Es]|[Ef _]]; [left; subst; split; [reflexivity|discriminate]|right].
-  exists m, id. split; [reflexivity|]. split; [reflexivity|]. split; [exact Eon|].
-  split; [exact Eo|]. split; [exact En|].
+  pose proof (store_fst p (p_ver p) m' f) as Hsf.
+  destruct (store c p (p_ver p) m' f) as [[p1 ver1] ok]. cbn [fst snd] in *.
+  destruct Hsf as [Ef|[Ef Hver]]; [left; inversion Ef; subst; split; [reflexivity|discriminate]|right].
+  apply Hread0 in Eo. destruct Eo as [Eo Hsk].
+  exists id. split; [exact Eon|]. split; [exact Eo|]. split; [exact Hsk|].
+  split.
+  { intros i Hi. destruct (skip c i) eqn:Ei; auto.
+    assert (sm_get new (m_names m) = Some i) by (apply Hread0; split; assumption). congruence. }
   pose proof Hok as (Hs & He & _). destruct Hrows as (Hsr & _).
   assert (Hs' : sorted (sm_put new id (sm_put old 0 (m_names m)))) by (repeat apply sm_put_sorted; exact Hs).
-  split; [|split; [rewrite Ef; apply put_all_sorted; exact Hsr | exact Hsv]].
+  assert (Hold_m : sm_get old (m_names m) = Some id) by (apply Hread0; split; assumption).
+  split; [|split; [rewrite Ef; apply put_all_sorted; exact Hsr | exact Hver]].
   intros n. rewrite Ef. subst m'. cbn [m_names].
   destruct (put_all_get (sm_put new id (sm_put old 0 (m_names m))) (p_rows p)) as [H1 H2].
   - apply (sorted_NoDup_keys _ Hs').
   - intros k v Hin. apply (sm_get_In k v _ Hs') in Hin. rewrite !sm_get_put in Hin.
-    destruct (bytes_eq_dec k new); [inversion Hin; subst; unfold keep; apply orb_true_iff; left; apply N.ltb_lt; apply He in Eo; lia|].
+    destruct (bytes_eq_dec k new); [inversion Hin; subst; unfold keep; apply orb_true_iff; left; apply N.ltb_lt; apply He in Hold_m; lia|].
     destruct (bytes_eq_dec k old); [inversion Hin; subst; unfold keep, skip; rewrite Htomb; cbn; apply orb_true_r|].
     unfold keep; apply orb_true_iff; left; apply N.ltb_lt; apply He in Hin; lia.
   - destruct (sm_get n (sm_put new id (sm_put old 0 (m_names m)))) as [v|] eqn:Eg.
     + rewrite (H1 n v) by (apply sm_get_In; auto). rewrite !sm_get_put in Eg.
       destruct (bytes_eq_dec n new); [symmetry; exact Eg|]. destruct (bytes_eq_dec n old); [symmetry; exact Eg|].
-      symmetry. apply (Hread eq_refl) in Eg. tauto.
+      symmetry. apply Hread0 in Eg. tauto.
     + rewrite H2 by (apply sm_get_None_keys; auto). rewrite !sm_get_put in Eg.
       destruct (bytes_eq_dec n new); [discriminate|]. destruct (bytes_eq_dec n old); [discriminate|]. reflexivity.
 Qed.
@@ -511,23 +528,11 @@ Qed.
 Lemma skip0 : skip c 0 = true.
 Proof. unfold skip. rewrite Htomb. reflexivity. Qed.
 
-Lemma load_ok_ver p m : load c p = LOk m -> p_ver p <= 1.
-Proof. unfold load. destruct (1 <? p_ver p) eqn:E; [discriminate|]. intros _. apply N.ltb_ge in E. exact E. Qed.
-
-Lemma rename_old_row p m old id :
-  rows_ok c (p_rows p) -> load c p = LOk m -> reads_rows c p = true ->
-  (sm_get old (m_names m) = Some id <-> (sm_get old (p_rows p) = Some id /\ skip c id = false)).
-Proof.
-  intros Hrows Hl Hr. destruct (load_spec p Hrows (load_ok_ver p m Hl)) as (m' & Hl' & _ & Hread & _).
-  rewrite Hl in Hl'; inversion Hl'; subst m'. apply (Hread Hr).
-Qed.
-
 (* T (invariant): Rename keeps the stored rows well-formed *)
 Theorem rename_rows_ok p old new f :
   rows_ok c (p_rows p) -> rows_ok c (p_rows (fst (rename c p old new f))).
 Proof.
-  intros Hrows. destruct (rename_cases p old new f Hrows) as [[E _]|(m & id & Hl & Hr & Hne & Ho & Hn & Hget & Hsorted & _)]; [rewrite E; exact Hrows|].
-  apply (rename_old_row p m old id Hrows Hl Hr) in Ho. destruct Ho as [Ho Hsk].
+  intros Hrows. destruct (rename_cases p old new f Hrows) as [[E _]|(id & Hne & Ho & Hsk & Hn & Hget & Hsorted & _)]; [rewrite E; exact Hrows|].
   destruct Hrows as (Hs & Hrange & Hinj).
   split; [exact Hsorted|split].
   - intros n i H Hski. rewrite Hget in H. destruct (bytes_eq_dec n new); [inversion H; subst; eapply Hrange; eauto|].
@@ -543,22 +548,14 @@ Proof.
       eapply Hinj; eauto.
 Qed.
 
-Lemma rename_ver p old new f : p_ver p = 1 -> p_ver (fst (rename c p old new f)) = 1.
-Proof.
-  intros Hv. unfold rename. destruct (lex_eqb old new); auto. destruct (load c p); auto.
-  destruct (sm_get old (m_names m)); auto. destruct (sm_get new (m_names m)); auto.
-  match goal with |- context [store c p ?mm f] => pose proof (store_ver p mm f Hv) as Hsv; destruct (store c p mm f) end.
-  exact Hsv.
-Qed.
-
 (* T (stable): Rename changes the ID of the renamed name only; the new name takes the ID over *)
 Theorem rename_stable p old new f n id :
   rows_ok c (p_rows p) -> sm_get n (p_rows p) = Some id -> skip c id = false -> n <> old ->
   sm_get n (p_rows (fst (rename c p old new f))) = Some id.
 Proof.
-  intros Hrows Hg Hsk Hne. destruct (rename_cases p old new f Hrows) as [[E _]|(m & i & Hl & Hr & Hon & Ho & Hn & Hget & _)]; [rewrite E; exact Hg|].
+  intros Hrows Hg Hsk Hne. destruct (rename_cases p old new f Hrows) as [[E _]|(i & Hon & Ho & Hski & Hn & Hget & _)]; [rewrite E; exact Hg|].
   rewrite Hget. destruct (bytes_eq_dec n new) as [->|]; [|destruct (bytes_eq_dec n old); [contradiction|exact Hg]].
-  exfalso. assert (sm_get new (m_names m) = Some id) by (apply (rename_old_row p m new id Hrows Hl Hr); tauto). congruence.
+  exfalso. rewrite (Hn id Hg) in Hsk. discriminate.
 Qed.
 
 Theorem rename_moves_id p old new f :
@@ -568,8 +565,7 @@ Theorem rename_moves_id p old new f :
              sm_get old (p_rows (fst (rename c p old new f))) = Some 0.
 Proof.
   intros Hrows Hcode.
-  destruct (rename_cases p old new f Hrows) as [[_ E]|(m & i & Hl & Hr & Hon & Ho & Hn & Hget & _)]; [contradiction|].
-  apply (rename_old_row p m old i Hrows Hl Hr) in Ho. destruct Ho as [Ho Hsk].
+  destruct (rename_cases p old new f Hrows) as [[_ E]|(i & Hon & Ho & Hsk & Hn & Hget & _)]; [contradiction|].
   exists i. split; [exact Ho|split; [exact Hsk|]]. rewrite !Hget. split.
   - destruct (bytes_eq_dec new new); [reflexivity|contradiction].
   - destruct (bytes_eq_dec old new); [contradiction|]. destruct (bytes_eq_dec old old); [reflexivity|contradiction].
@@ -577,325 +573,291 @@ Qed.
 
 End Registry.
 
-(* ---------- one registry: steps and histories ---------- *)
-
-Definition act_covers (c : rcfg) (p : pers) (a : raction) : Prop :=
-  match a with RPrepare names _ => covers c p names | _ => True end.
-
-(* Rename exists for registries with tombstones only (qnames) *)
-Definition act_wf (c : rcfg) (a : raction) : Prop :=
-  match a with RRename _ _ _ => c_tomb c = true | _ => True end.
-
-Definition act_fault (a : raction) : rfault :=
-  match a with RPrepare _ f => f | RRename _ _ f => f | RNop => RNoFault end.
-
-Fixpoint racts_covered (c : rcfg) (p : pers) (l : list raction) : Prop :=
-  match l with
-  | [] => True
-  | a :: r => act_wf c a /\ act_covers c p a /\ racts_covered c (rstep c p a) r
-  end.
-
-Section RegistrySteps.
-Variable c : rcfg.
-Hypothesis Hwf : c_sys_last c < c_max c.
-
-Lemma rstep_rows_ok p a :
-  act_wf c a -> rows_ok c (p_rows p) -> act_covers c p a -> rows_ok c (p_rows (rstep c p a)).
-Proof.
-  destruct a as [names f|old new f|]; cbn; intros Hw Hrows Hcov; auto.
-  - apply prepare_rows_ok; auto.
-  - apply rename_rows_ok; auto.
-Qed.
-
-Lemma rstep_ver p a : p_ver p = 1 -> p_ver (rstep c p a) = 1.
-Proof. destruct a; cbn; intros H; auto; [apply prepare_ver | apply rename_ver]; exact H. Qed.
-
-Lemma store_ver_cases p m f : p_ver (fst (store c p m f)) = p_ver p \/ p_ver (fst (store c p m f)) = 1.
-Proof. unfold store. destruct f; cbn; auto; destruct (p_ver p =? 1) eqn:E; cbn; auto. Qed.
-
-Lemma rstep_ver_cases p a : p_ver (rstep c p a) = p_ver p \/ p_ver (rstep c p a) = 1.
-Proof.
-  destruct a as [names f|old new f|]; cbn; auto.
-  - unfold prepare. destruct (load c p); auto. cbn zeta. destruct (cs_err _); auto. destruct (cs_changed _); auto.
-    match goal with |- context [store c p ?mm f] => pose proof (store_ver_cases p mm f) as H; destruct (store c p mm f) end. exact H.
-  - unfold rename. destruct (lex_eqb old new); auto. destruct (load c p); auto.
-    destruct (sm_get old (m_names m)); auto. destruct (sm_get new (m_names m)); auto.
-    match goal with |- context [store c p ?mm f] => pose proof (store_ver_cases p mm f) as H; destruct (store c p mm f) end. exact H.
-Qed.
-
-Lemma reads_rows_step p a : reads_rows c p = true -> reads_rows c (rstep c p a) = true.
-Proof.
-  unfold reads_rows. intros H. destruct (rstep_ver_cases p a) as [E|E]; rewrite E; auto.
-Qed.
-
-Lemma rstep_stable p a n id :
-  act_wf c a -> rows_ok c (p_rows p) -> reads_rows c p = true ->
-  sm_get n (p_rows p) = Some id -> skip c id = false ->
-  (forall new f, a <> RRename n new f) ->
-  sm_get n (p_rows (rstep c p a)) = Some id.
-Proof.
-  destruct a as [names f|old new f|]; cbn; intros Hw Hrows Hr Hg Hsk Hnr; auto.
-  - apply prepare_stable; auto.
-  - apply rename_stable; auto. intros ->. apply (Hnr new f). reflexivity.
-Qed.
-
-Theorem rrun_rows_ok l : forall p,
-  rows_ok c (p_rows p) -> racts_covered c p l -> rows_ok c (p_rows (rrun c p l)).
-Proof.
-  induction l as [|a r IH]; intros p Hrows Hcov; cbn; auto.
-  destruct Hcov as (Hw & Hc & Hrest). apply IH; auto. apply rstep_rows_ok; auto.
-Qed.
-
-Theorem rrun_stable l : forall p n id,
-  rows_ok c (p_rows p) -> racts_covered c p l -> reads_rows c p = true ->
-  sm_get n (p_rows p) = Some id -> skip c id = false ->
-  (forall new f, ~ In (RRename n new f) l) ->
-  sm_get n (p_rows (rrun c p l)) = Some id /\ reads_rows c (rrun c p l) = true.
-Proof.
-  induction l as [|a r IH]; intros p n id Hrows Hcov Hr Hg Hsk Hnr; cbn; auto.
-  destruct Hcov as (Hw & Hc & Hrest). apply IH; auto.
-  - apply rstep_rows_ok; auto.
-  - apply reads_rows_step; auto.
-  - apply rstep_stable; auto. intros new f ->. apply (Hnr new f). left; reflexivity.
-  - intros new f Hin. apply (Hnr new f). right; exact Hin.
-Qed.
-
-(* no interruption between the rows and the version row: the registry is always either
-   empty or read, hence every Prepare covers its rows *)
-Definition clean (p : pers) : Prop := reads_rows c p = true \/ p_rows p = [].
-
-Lemma clean_covers p names : clean p -> covers c p names.
-Proof. intros [H|H]; [left; exact H | right; rewrite H; cbn; discriminate]. Qed.
-
-Lemma store_clean p m f : f <> RFailVer -> fst (store c p m f) = p \/ p_ver (fst (store c p m f)) = 1.
-Proof. unfold store. destruct f; cbn; auto; try contradiction; destruct (p_ver p =? 1); cbn; auto. Qed.
-
-Lemma rstep_clean p a : act_fault a <> RFailVer -> clean p -> clean (rstep c p a).
-Proof.
-  intros Hf Hc.
-  assert (Hcases : rstep c p a = p \/ p_ver (rstep c p a) = 1).
-  { destruct a as [names f|old new f|]; cbn in *; auto.
-    - unfold prepare. destruct (load c p); auto. cbn zeta. destruct (cs_err _); auto. destruct (cs_changed _); auto.
-      match goal with |- context [store c p ?mm f] => pose proof (store_clean p mm f Hf) as H; destruct (store c p mm f) end. exact H.
-    - unfold rename. destruct (lex_eqb old new); auto. destruct (load c p); auto.
-      destruct (sm_get old (m_names m)); auto. destruct (sm_get new (m_names m)); auto.
-      match goal with |- context [store c p ?mm f] => pose proof (store_clean p mm f Hf) as H; destruct (store c p mm f) end. exact H. }
-  destruct Hcases as [E|E]; [rewrite E; exact Hc|]. left. unfold reads_rows. rewrite E. reflexivity.
-Qed.
-
-End RegistrySteps.
-
 (* ---------- the application ---------- *)
 
 Lemma cfg_q_wf : c_sys_last cfg_q < c_max cfg_q. Proof. vm_compute. reflexivity. Qed.
 Lemma cfg_c_wf : c_sys_last cfg_c < c_max cfg_c. Proof. vm_compute. reflexivity. Qed.
 Lemma cfg_s_wf : c_sys_last cfg_s < c_max cfg_s. Proof. vm_compute. reflexivity. Qed.
+(* the shape of the Go code the proofs depend on (translator flags) *)
+Lemma cfg_q_read : c_needver cfg_q = false. Proof. reflexivity. Qed.
+Lemma cfg_c_read : c_needver cfg_c = false. Proof. reflexivity. Qed.
+Lemma cfg_s_read : c_needver cfg_s = false. Proof. reflexivity. Qed.
+Lemma cfg_q_late : c_late cfg_q = true. Proof. reflexivity. Qed.
+Lemma cfg_c_late : c_late cfg_c = true. Proof. reflexivity. Qed.
+Lemma cfg_s_late : c_late cfg_s = true. Proof. reflexivity. Qed.
 
 Definition sys_ok (s : sys) : Prop :=
   rows_ok cfg_q (p_rows (s_q s)) /\ rows_ok cfg_c (p_rows (s_c s)) /\ rows_ok cfg_s (p_rows (s_s s)).
 
-Definition sys_covers (s : sys) (a : action) : Prop :=
-  act_covers cfg_q (s_q s) (act_q s a) /\ act_covers cfg_c (s_c s) (act_c s a) /\ act_covers cfg_s (s_s s) (act_s s a).
+Definition vols_ok (s : sys) (pr : proc) : Prop :=
+  vol_ok cfg_q (s_q s) (pr_q pr) /\ vol_ok cfg_c (s_c s) (pr_c pr) /\ vol_ok cfg_s (s_s s) (pr_s pr).
 
-Fixpoint sys_covered (s : sys) (l : list action) : Prop :=
-  match l with
-  | [] => True
-  | a :: r => sys_covers s a /\ sys_covered (fst (sys_step s a)) r
-  end.
-
-Lemma sys_step_proj s a :
-  s_q (fst (sys_step s a)) = rstep cfg_q (s_q s) (act_q s a) /\
-  s_c (fst (sys_step s a)) = rstep cfg_c (s_c s) (act_c s a) /\
-  s_s (fst (sys_step s a)) = rstep cfg_s (s_s s) (act_s s a).
-Proof.
-  destruct a as [qn cn sn f|old new f]; cbn.
-  - destruct (prepare cfg_q (s_q s) qn (fault_for f 0)) as [q' [mq|e]]; cbn; [|auto].
-    destruct (prepare cfg_c (s_c s) cn (fault_for f 1)) as [c' [mc|e]]; cbn; [|auto].
-    destruct (prepare cfg_s (s_s s) sn (fault_for f 2)) as [s' [ms|e]]; cbn; auto.
-  - destruct (rename cfg_q (s_q s) old new (fault_for f 0)) as [q' code]; cbn; auto.
-Qed.
-
-Lemma act_wf_q s a : act_wf cfg_q (act_q s a). Proof. destruct a; cbn; auto. Qed.
-Lemma act_wf_c s a : act_wf cfg_c (act_c s a).
-Proof. destruct a; cbn; auto. destruct (snd _); cbn; auto. Qed.
-Lemma act_wf_s s a : act_wf cfg_s (act_s s a).
-Proof. destruct a; cbn; auto. destruct (snd _); cbn; auto. destruct (snd _); cbn; auto. Qed.
-
-Lemma sys_step_ok s a : sys_ok s -> sys_covers s a -> sys_ok (fst (sys_step s a)).
-Proof.
-  intros (Hq & Hc & Hs) (Cq & Cc & Cs). destruct (sys_step_proj s a) as (Eq & Ec & Es).
-  unfold sys_ok. rewrite Eq, Ec, Es. split; [|split].
-  - apply rstep_rows_ok; auto using cfg_q_wf, act_wf_q.
-  - apply rstep_rows_ok; auto using cfg_c_wf, act_wf_c.
-  - apply rstep_rows_ok; auto using cfg_s_wf, act_wf_s.
-Qed.
-
-Theorem sys_run_ok l : forall s, sys_ok s -> sys_covered s l -> sys_ok (sys_run s l).
-Proof.
-  induction l as [|a r IH]; intros s Hok Hcov; cbn; auto.
-  destruct Hcov as [Hc Hrest]. apply IH; auto. apply sys_step_ok; auto.
-Qed.
+Lemma vols_ok_fresh s : vols_ok s proc0.
+Proof. split; [|split]; apply vol0_ok; auto using cfg_q_wf, cfg_c_wf, cfg_s_wf. Qed.
 
 (* registry selector: 0 qnames, 1 containers, 2 singletons *)
 Definition cfg_of (r : N) : rcfg := if r =? 0 then cfg_q else if r =? 1 then cfg_c else cfg_s.
 Definition sel (r : N) (s : sys) : pers := if r =? 0 then s_q s else if r =? 1 then s_c s else s_s s.
-Definition act_of (r : N) (s : sys) (a : action) : raction :=
-  if r =? 0 then act_q s a else if r =? 1 then act_c s a else act_s s a.
+Definition mem_of (r : N) (mq mc ms : mem) : mem := if r =? 0 then mq else if r =? 1 then mc else ms.
 
-Lemma cfg_of_wf r : c_sys_last (cfg_of r) < c_max (cfg_of r).
-Proof. unfold cfg_of. destruct (r =? 0); [apply cfg_q_wf|]. destruct (r =? 1); [apply cfg_c_wf|apply cfg_s_wf]. Qed.
-
-Lemma sel_step r s a : sel r (fst (sys_step s a)) = rstep (cfg_of r) (sel r s) (act_of r s a).
-Proof.
-  destruct (sys_step_proj s a) as (Eq & Ec & Es). unfold sel, cfg_of, act_of.
-  destruct (r =? 0); [exact Eq|]. destruct (r =? 1); [exact Ec|exact Es].
-Qed.
-
-Lemma sel_ok r s : sys_ok s -> rows_ok (cfg_of r) (p_rows (sel r s)).
-Proof. intros (Hq & Hc & Hs). unfold sel, cfg_of. destruct (r =? 0); auto. destruct (r =? 1); auto. Qed.
-
-Lemma sel_covers r s a : sys_covers s a -> act_covers (cfg_of r) (sel r s) (act_of r s a).
-Proof. intros (Hq & Hc & Hs). unfold sel, cfg_of, act_of. destruct (r =? 0); auto. destruct (r =? 1); auto. Qed.
-
-Lemma act_of_wf r s a : act_wf (cfg_of r) (act_of r s a).
-Proof.
-  unfold cfg_of, act_of. destruct (r =? 0); [apply act_wf_q|]. destruct (r =? 1); [apply act_wf_c|apply act_wf_s].
-Qed.
-
-(* a system action renames n in registry r only if it is a Rename of n and r is the qnames registry *)
-Lemma act_of_rename r s a n new f : act_of r s a = RRename n new f -> r = 0 /\ exists f', a = ARename n new f'.
-Proof.
-  unfold act_of. destruct (r =? 0) eqn:E0.
-  - apply N.eqb_eq in E0. destruct a; cbn; intros H; inversion H; subst. split; auto. eexists; reflexivity.
-  - destruct (r =? 1).
-    + destruct a; cbn; [destruct (snd _)|]; discriminate.
-    + destruct a; cbn; [destruct (snd _); [destruct (snd _)|]|]; discriminate.
-Qed.
-
-Theorem sys_run_stable r l : forall s n id,
-  sys_ok s -> sys_covered s l -> reads_rows (cfg_of r) (sel r s) = true ->
-  sm_get n (p_rows (sel r s)) = Some id -> skip (cfg_of r) id = false ->
-  (r = 0 -> forall new f, ~ In (ARename n new f) l) ->
-  sm_get n (p_rows (sel r (sys_run s l))) = Some id /\ reads_rows (cfg_of r) (sel r (sys_run s l)) = true.
-Proof.
-  induction l as [|a rest IH]; intros s n id Hok Hcov Hr Hg Hsk Hnr; cbn; auto.
-  destruct Hcov as [Hc Hrest]. apply IH; auto.
-  - apply sys_step_ok; auto.
-  - rewrite sel_step. apply reads_rows_step. exact Hr.
-  - rewrite sel_step. apply rstep_stable; auto using cfg_of_wf, act_of_wf, sel_ok.
-    intros new f E. apply act_of_rename in E. destruct E as [E0 [f' Ea]]. subst a.
-    apply (Hnr E0 new f'). left; reflexivity.
-  - intros E0 new f Hin. apply (Hnr E0 new f). right; exact Hin.
-Qed.
-
-(* what a successful start hands to the application, per registry *)
+(* what a successful start hands to the application, per registry: every schema name has an ID;
+   no two names share one; each ID lies strictly between the reserved range and the limit, maps
+   back to its name, and is stored; every stored live ID is returned *)
 Definition lookup_ok (c : rcfg) (m : mem) (names : list bytes) (p' : pers) : Prop :=
   (forall n, In n names -> exists id, sm_get n (m_names m) = Some id) /\
   (forall n1 n2 id, sm_get n1 (m_names m) = Some id -> sm_get n2 (m_names m) = Some id -> n1 = n2) /\
   (forall n id, sm_get n (m_names m) = Some id ->
-     c_sys_last c < id < c_max c /\ id_name (m_ids m) id = Some n /\ sm_get n (p_rows p') = Some id).
+     c_sys_last c < id < c_max c /\ id_name (m_ids m) id = Some n /\ sm_get n (p_rows p') = Some id) /\
+  (forall n id, sm_get n (p_rows p') = Some id -> skip c id = false -> sm_get n (m_names m) = Some id).
 
-Lemma prepare_lookup_ok c p names f p' m :
-  c_sys_last c < c_max c -> rows_ok c (p_rows p) -> covers c p names ->
-  prepare c p names f = (p', ROk m) -> lookup_ok c m names p'.
+Lemma prepare_lookup_ok c p v names f p' v' m :
+  c_sys_last c < c_max c -> c_needver c = false -> c_late c = true ->
+  rows_ok c (p_rows p) -> vol_ok c p v ->
+  prepare c p v names f = (p', v', ROk m) -> lookup_ok c m names p'.
 Proof.
-  intros Hwf Hrows Hcov E. destruct (prepare_mem_ok c Hwf p names f p' m Hrows Hcov E) as (Hok & Hall & Hrow & _).
-  split; [exact Hall|split].
+  intros Hwf Hread Hlate Hrows Hv E.
+  destruct (prepare_spec c Hwf Hread Hlate _ _ _ _ _ _ _ Hrows Hv E) as (_ & (Hok & _ & Hpers) & _ & _ & Hm & _).
+  destruct (Hm m eq_refl) as (Em & Ech & Hld & Hall). subst m.
+  split; [exact Hall|split; [|split; [|exact Hld]]].
   - intros n1 n2 id H1 H2. eapply mem_ok_injective; eauto.
   - intros n id Hg. destruct Hok as (_ & He & _ & Hl). destruct (He n id Hg) as [Hb Hn].
-    split; [lia|split; [exact Hn|apply Hrow; exact Hg]].
+    split; [lia|split; [exact Hn|apply (Hpers Ech); exact Hg]].
 Qed.
 
-Lemma start_inv s qn cn sn f s' mq mc ms :
-  sys_step s (AStart qn cn sn f) = (s', SOk mq mc ms) ->
-  prepare cfg_q (s_q s) qn (fault_for f 0) = (s_q s', ROk mq) /\
-  prepare cfg_c (s_c s) cn (fault_for f 1) = (s_c s', ROk mc) /\
-  prepare cfg_s (s_s s) sn (fault_for f 2) = (s_s s', ROk ms).
+Lemma run_start_spec s pr qn cn sn f s' pr' o :
+  sys_ok s -> vols_ok s pr -> run_start s pr qn cn sn f = ((s', pr'), o) ->
+  sys_ok s' /\ vols_ok s' pr' /\
+  (forall r n id, sm_get n (p_rows (sel r s)) = Some id -> skip (cfg_of r) id = false ->
+                  sm_get n (p_rows (sel r s')) = Some id) /\
+  (forall mq mc ms, o = SOk mq mc ms ->
+     lookup_ok cfg_q mq qn (s_q s') /\ lookup_ok cfg_c mc cn (s_c s') /\ lookup_ok cfg_s ms sn (s_s s')).
 Proof.
-  cbn. destruct (prepare cfg_q (s_q s) qn (fault_for f 0)) as [q' [mq'|e]]; [|discriminate].
-  destruct (prepare cfg_c (s_c s) cn (fault_for f 1)) as [c' [mc'|e]]; [|discriminate].
-  destruct (prepare cfg_s (s_s s) sn (fault_for f 2)) as [t' [ms'|e]]; [|discriminate].
-  intros H; inversion H; subst; cbn. auto.
+  intros (Hq & Hc & Hs) (Vq & Vc & Vs) E. unfold run_start in E.
+  destruct (prepare cfg_q (s_q s) (pr_q pr) qn (fault_for f 0)) as [[q' vq] rq] eqn:Eq.
+  pose proof (prepare_spec cfg_q cfg_q_wf cfg_q_read cfg_q_late _ _ _ _ _ _ _ Hq Vq Eq) as (Rq & Wq & Sq & _).
+  assert (Hstab : forall (q1 c1 s1 : pers),
+            (forall n id, sm_get n (p_rows (s_q s)) = Some id -> skip cfg_q id = false -> sm_get n (p_rows q1) = Some id) ->
+            (forall n id, sm_get n (p_rows (s_c s)) = Some id -> skip cfg_c id = false -> sm_get n (p_rows c1) = Some id) ->
+            (forall n id, sm_get n (p_rows (s_s s)) = Some id -> skip cfg_s id = false -> sm_get n (p_rows s1) = Some id) ->
+            forall r n id, sm_get n (p_rows (sel r s)) = Some id -> skip (cfg_of r) id = false ->
+                           sm_get n (p_rows (sel r (mkSys q1 c1 s1))) = Some id).
+  { intros q1 c1 s1 H0 H1 H2 r n id. unfold sel, cfg_of. cbn. destruct (r =? 0); [apply H0|]. destruct (r =? 1); [apply H1|apply H2]. }
+  destruct rq as [mq|e].
+  2:{ inversion E; subst. split; [split; [exact Rq|split; [exact Hc|exact Hs]]|]. split; [split; [exact Wq|split; [exact Vc|exact Vs]]|].
+      split; [apply Hstab; auto|discriminate]. }
+  destruct (prepare cfg_c (s_c s) (pr_c pr) cn (fault_for f 1)) as [[c' vc] rc] eqn:Ec.
+  pose proof (prepare_spec cfg_c cfg_c_wf cfg_c_read cfg_c_late _ _ _ _ _ _ _ Hc Vc Ec) as (Rc & Wc & Sc & _).
+  destruct rc as [mc|e].
+  2:{ inversion E; subst. split; [split; [exact Rq|split; [exact Rc|exact Hs]]|]. split; [split; [exact Wq|split; [exact Wc|exact Vs]]|].
+      split; [apply Hstab; auto|discriminate]. }
+  destruct (prepare cfg_s (s_s s) (pr_s pr) sn (fault_for f 2)) as [[t' vs] rs] eqn:Es.
+  pose proof (prepare_spec cfg_s cfg_s_wf cfg_s_read cfg_s_late _ _ _ _ _ _ _ Hs Vs Es) as (Rs & Ws & Ss & _).
+  destruct rs as [ms|e].
+  2:{ inversion E; subst. split; [split; [exact Rq|split; [exact Rc|exact Rs]]|]. split; [split; [exact Wq|split; [exact Wc|exact Ws]]|].
+      split; [apply Hstab; auto|discriminate]. }
+  inversion E; subst. split; [split; [exact Rq|split; [exact Rc|exact Rs]]|]. split; [split; [exact Wq|split; [exact Wc|exact Ws]]|].
+  split; [apply Hstab; auto|]. intros mq' mc' ms' Ho. inversion Ho; subst. cbn.
+  split; [|split].
+  - exact (prepare_lookup_ok _ _ _ _ _ _ _ _ cfg_q_wf cfg_q_read cfg_q_late Hq Vq Eq).
+  - exact (prepare_lookup_ok _ _ _ _ _ _ _ _ cfg_c_wf cfg_c_read cfg_c_late Hc Vc Ec).
+  - exact (prepare_lookup_ok _ _ _ _ _ _ _ _ cfg_s_wf cfg_s_read cfg_s_late Hs Vs Es).
 Qed.
 
-Theorem start_lookup_ok s qn cn sn f s' mq mc ms :
-  sys_ok s -> sys_covers s (AStart qn cn sn f) ->
-  sys_step s (AStart qn cn sn f) = (s', SOk mq mc ms) ->
-  lookup_ok cfg_q mq qn (s_q s') /\ lookup_ok cfg_c mc cn (s_c s') /\ lookup_ok cfg_s ms sn (s_s s').
+(* ---------- histories ---------- *)
+
+(* the one sequencing the theorems exclude: an in-process retry of a failed start after the
+   storage was changed behind the process's back by a Rename (the registry objects are then
+   stale); a Rename belongs to a running application or to a maintenance run between processes *)
+Fixpoint hist_ok (renamed : bool) (l : list action) : Prop :=
+  match l with
+  | [] => True
+  | AStart _ _ _ _ :: r => hist_ok false r
+  | ARetry _ _ _ _ :: r => renamed = false /\ hist_ok renamed r
+  | ARename _ _ _ :: r => hist_ok true r
+  end.
+
+Fixpoint flag_after (renamed : bool) (l : list action) : bool :=
+  match l with
+  | [] => renamed
+  | AStart _ _ _ _ :: r => flag_after false r
+  | ARetry _ _ _ _ :: r => flag_after renamed r
+  | ARename _ _ _ :: r => flag_after true r
+  end.
+
+Lemma hist_ok_app l1 : forall b l2, hist_ok b (l1 ++ l2) <-> hist_ok b l1 /\ hist_ok (flag_after b l1) l2.
 Proof.
-  intros (Hq & Hc & Hs) (Cq & Cc & Cs) E. destruct (start_inv _ _ _ _ _ _ _ _ _ E) as (Eq & Ec & Es).
-  cbn in Cq, Cc, Cs. rewrite Eq in Cc, Cs. rewrite Ec in Cs. cbn in Cc, Cs.
-  split; [|split]; eapply prepare_lookup_ok; eauto using cfg_q_wf, cfg_c_wf, cfg_s_wf.
+  induction l1 as [|a r IH]; intros b l2; cbn; [tauto|].
+  destruct a; rewrite ?IH; tauto.
 Qed.
 
-Definition mem_of (r : N) (mq mc ms : mem) : mem := if r =? 0 then mq else if r =? 1 then mc else ms.
+Lemma flag_after_app l1 : forall b l2, flag_after b (l1 ++ l2) = flag_after (flag_after b l1) l2.
+Proof. induction l1 as [|a r IH]; intros b l2; cbn; auto. destruct a; apply IH. Qed.
 
-(* a successful start returns the stored ID of every stored live name *)
-Theorem start_returns_stored s qn cn sn f s' mq mc ms r n id :
-  sys_ok s -> sys_covers s (AStart qn cn sn f) ->
-  sys_step s (AStart qn cn sn f) = (s', SOk mq mc ms) ->
-  reads_rows (cfg_of r) (sel r s) = true ->
-  sm_get n (p_rows (sel r s)) = Some id -> skip (cfg_of r) id = false ->
-  sm_get n (m_names (mem_of r mq mc ms)) = Some id.
+Definition inv (renamed : bool) (st : state) : Prop :=
+  sys_ok (fst st) /\ (renamed = false -> vols_ok (fst st) (snd st)).
+
+Lemma inv_fresh s b : sys_ok s -> inv b (s, proc0).
+Proof. intros H. split; [exact H|intros _; apply vols_ok_fresh]. Qed.
+
+(* a step that runs AppConfigType.prepare: a new process, or a retry while not yet prepared *)
+Inductive prepares : state -> action -> list bytes -> list bytes -> list bytes -> Prop :=
+| P_start st qn cn sn f : prepares st (AStart qn cn sn f) qn cn sn
+| P_retry st qn cn sn f : pr_ready (snd st) = false -> prepares st (ARetry qn cn sn f) qn cn sn.
+
+Lemma prepares_step b st a qn cn sn :
+  inv b st -> hist_ok b [a] -> prepares st a qn cn sn ->
+  exists pr f, sys_step st a = run_start (fst st) pr qn cn sn f /\ vols_ok (fst st) pr.
 Proof.
-  intros (Hq & Hc & Hs) (Cq & Cc & Cs) E. destruct (start_inv _ _ _ _ _ _ _ _ _ E) as (Eq & Ec & Es).
-  cbn in Cq, Cc, Cs. rewrite Eq in Cc, Cs. rewrite Ec in Cs. cbn in Cc, Cs.
-  unfold cfg_of, sel, mem_of. destruct (r =? 0); [|destruct (r =? 1)]; intros Hr Hg Hsk.
-  - destruct (prepare_mem_ok cfg_q cfg_q_wf _ _ _ _ _ Hq Cq Eq) as (_ & _ & _ & H). apply H; auto.
-  - destruct (prepare_mem_ok cfg_c cfg_c_wf _ _ _ _ _ Hc Cc Ec) as (_ & _ & _ & H). apply H; auto.
-  - destruct (prepare_mem_ok cfg_s cfg_s_wf _ _ _ _ _ Hs Cs Es) as (_ & _ & _ & H). apply H; auto.
+  intros (Hok & Hv) Hh Hp. destruct st as [s pr]. inversion Hp; subst; cbn in *.
+  - exists proc0, f. split; [reflexivity|apply vols_ok_fresh].
+  - exists pr, f. rewrite H. split; [reflexivity|]. apply Hv. tauto.
 Qed.
 
-(* data written under an ID is decoded with the name it was written under *)
-Theorem decode_roundtrip s qn cn sn f s' mq mc ms n id :
-  sys_ok s -> sys_covers s (AStart qn cn sn f) ->
-  sys_step s (AStart qn cn sn f) = (s', SOk mq mc ms) ->
-  In n qn -> sm_get n (m_names mq) = Some id -> decode mq qn id = Some n.
+Lemma sys_step_inv b st a : inv b st -> hist_ok b [a] -> inv (flag_after b [a]) (fst (sys_step st a)).
 Proof.
-  intros Hok Hcov E Hin Hg. destruct (start_lookup_ok _ _ _ _ _ _ _ _ _ Hok Hcov E) as ((_ & _ & H) & _).
-  destruct (H n id Hg) as (_ & Hn & _). unfold decode. rewrite Hn.
-  replace (existsb (lex_eqb n) qn) with true; [reflexivity|].
+  intros Hinv Hh. pose proof Hinv as (Hok & Hv). destruct st as [s pr]. destruct a as [qn cn sn f|qn cn sn f|old new f].
+  - destruct (prepares_step b (s, pr) _ qn cn sn Hinv Hh (P_start _ _ _ _ _)) as (pr0 & f0 & E & Hv0).
+    rewrite E. cbn [fst snd] in *. destruct (run_start s pr0 qn cn sn f0) as [[s' pr'] o] eqn:Er.
+    destruct (run_start_spec _ _ _ _ _ _ _ _ _ Hok Hv0 Er) as (H1 & H2 & _). split; [exact H1|intros _; exact H2].
+  - cbn in Hh. destruct Hh as [-> _]. cbn [flag_after]. destruct (pr_ready pr) eqn:Erdy.
+    + cbn. rewrite Erdy. exact Hinv.
+    + assert (Hh1 : hist_ok false [ARetry qn cn sn f]) by (cbn; auto).
+      destruct (prepares_step false (s, pr) _ qn cn sn Hinv Hh1 (P_retry (s, pr) qn cn sn f Erdy)) as (pr0 & f0 & E & Hv0).
+      rewrite E. cbn [fst snd] in *. destruct (run_start s pr0 qn cn sn f0) as [[s' pr'] o] eqn:Er.
+      destruct (run_start_spec _ _ _ _ _ _ _ _ _ Hok Hv0 Er) as (H1 & H2 & _). split; [exact H1|intros _; exact H2].
+  - cbn. destruct (rename cfg_q (s_q s) old new (fault_for f 0)) as [q' code] eqn:Er. cbn.
+    split; [|discriminate]. destruct Hok as (Hq & Hc & Hs). split; [|split; [exact Hc|exact Hs]]. cbn.
+    replace q' with (fst (rename cfg_q (s_q s) old new (fault_for f 0))) by (rewrite Er; reflexivity).
+    apply rename_rows_ok; auto using cfg_q_wf, cfg_q_read.
+Qed.
+
+Theorem sys_run_inv l : forall b st, inv b st -> hist_ok b l -> inv (flag_after b l) (sys_run st l).
+Proof.
+  induction l as [|a r IH]; intros b st Hinv Hh; cbn [sys_run fold_left flag_after]; [exact Hinv|].
+  change (a :: r) with ([a] ++ r) in Hh. apply hist_ok_app in Hh. destruct Hh as [Ha Hr].
+  pose proof (sys_step_inv b st a Hinv Ha) as Hinv'.
+  specialize (IH _ _ Hinv' Hr). destruct a; exact IH.
+Qed.
+
+(* ---------- stability across histories ---------- *)
+
+Definition never_renamed (n : bytes) (l : list action) : Prop := forall new f, ~ In (ARename n new f) l.
+
+Lemma skip_cfg_of_range r id : c_sys_last (cfg_of r) < id -> skip (cfg_of r) id = false.
+Proof.
+  intros H. unfold skip. destruct (c_tomb (cfg_of r)); cbn; auto. apply N.eqb_neq. lia.
+Qed.
+
+Lemma sys_step_stable b st a r n id :
+  inv b st -> hist_ok b [a] ->
+  sm_get n (p_rows (sel r (fst st))) = Some id -> skip (cfg_of r) id = false ->
+  (r = 0 -> forall new f, a <> ARename n new f) ->
+  sm_get n (p_rows (sel r (fst (fst (sys_step st a))))) = Some id.
+Proof.
+  intros Hinv Hh Hg Hsk Hnr. pose proof Hinv as (Hok & Hv).
+  assert (Hprep : forall qn cn sn, prepares st a qn cn sn -> sm_get n (p_rows (sel r (fst (fst (sys_step st a))))) = Some id).
+  { intros qn cn sn Hp. destruct (prepares_step b st a qn cn sn Hinv Hh Hp) as (pr0 & f0 & E & Hv0).
+    rewrite E. destruct (run_start (fst st) pr0 qn cn sn f0) as [[s' pr'] o] eqn:Er.
+    destruct (run_start_spec _ _ _ _ _ _ _ _ _ Hok Hv0 Er) as (_ & _ & Hst & _). cbn. apply Hst; assumption. }
+  destruct a as [qn cn sn f|qn cn sn f|old new f].
+  - apply (Hprep qn cn sn). constructor.
+  - destruct (pr_ready (snd st)) eqn:Erdy.
+    + destruct st as [s pr]. cbn in *. rewrite Erdy. exact Hg.
+    + apply (Hprep qn cn sn). constructor. exact Erdy.
+  - destruct st as [s pr]. cbn in *. destruct (rename cfg_q (s_q s) old new (fault_for f 0)) as [q' code] eqn:Er. cbn.
+    unfold sel, cfg_of in *. cbn. destruct (r =? 0) eqn:E0; [|exact Hg].
+    apply N.eqb_eq in E0.
+    replace q' with (fst (rename cfg_q (s_q s) old new (fault_for f 0))) by (rewrite Er; reflexivity).
+    destruct Hok as (Hq & _). apply rename_stable; auto using cfg_q_wf, cfg_q_read.
+    intros ->. apply (Hnr E0 new f). reflexivity.
+Qed.
+
+Theorem sys_run_stable r l : forall b st n id,
+  inv b st -> hist_ok b l ->
+  sm_get n (p_rows (sel r (fst st))) = Some id -> skip (cfg_of r) id = false ->
+  (r = 0 -> never_renamed n l) ->
+  sm_get n (p_rows (sel r (fst (sys_run st l)))) = Some id.
+Proof.
+  induction l as [|a rest IH]; intros b st n id Hinv Hh Hg Hsk Hnr; cbn [sys_run fold_left]; [exact Hg|].
+  change (a :: rest) with ([a] ++ rest) in Hh. apply hist_ok_app in Hh. destruct Hh as [Ha Hr].
+  apply (IH (flag_after b [a])); auto.
+  - apply sys_step_inv; assumption.
+  - apply (sys_step_stable b); auto. intros E0 new f ->. apply (Hnr E0 new f). left; reflexivity.
+  - intros E0 new f Hin. apply (Hnr E0 new f). right; exact Hin.
+Qed.
+
+(* T: what a successful preparing step hands to the application *)
+Theorem start_lookup_ok b st a qn cn sn st' mq mc ms :
+  inv b st -> hist_ok b [a] -> prepares st a qn cn sn ->
+  sys_step st a = (st', SOk mq mc ms) ->
+  lookup_ok cfg_q mq qn (s_q (fst st')) /\ lookup_ok cfg_c mc cn (s_c (fst st')) /\ lookup_ok cfg_s ms sn (s_s (fst st')).
+Proof.
+  intros Hinv Hh Hp E. pose proof Hinv as (Hok & _).
+  destruct (prepares_step b st a qn cn sn Hinv Hh Hp) as (pr0 & f0 & E' & Hv0).
+  rewrite E' in E. destruct st' as [s' pr'].
+  destruct (run_start_spec _ _ _ _ _ _ _ _ _ Hok Hv0 E) as (_ & _ & _ & Hl). apply Hl. reflexivity.
+Qed.
+
+Lemma lookup_ok_of r mq mc ms qn cn sn s' :
+  lookup_ok cfg_q mq qn (s_q s') /\ lookup_ok cfg_c mc cn (s_c s') /\ lookup_ok cfg_s ms sn (s_s s') ->
+  exists names, lookup_ok (cfg_of r) (mem_of r mq mc ms) names (sel r s').
+Proof.
+  intros (Hq & Hc & Hs). unfold cfg_of, mem_of, sel. destruct (r =? 0); [exists qn; exact Hq|].
+  destruct (r =? 1); [exists cn; exact Hc|exists sn; exact Hs].
+Qed.
+
+(* T (stable, as observed): the ID a successful start returned for a name is returned again by
+   every later successful start or retry, whatever happened in between (failed starts, in-process
+   retries, other schemas, renames of other names) *)
+Theorem start_ids_stable r b st a1 qn cn sn st1 mq mc ms n id l a2 qn' cn' sn' st2 mq' mc' ms' :
+  inv b st -> hist_ok b (a1 :: l ++ [a2]) ->
+  prepares st a1 qn cn sn -> sys_step st a1 = (st1, SOk mq mc ms) ->
+  sm_get n (m_names (mem_of r mq mc ms)) = Some id ->
+  (r = 0 -> never_renamed n l) ->
+  prepares (sys_run st1 l) a2 qn' cn' sn' ->
+  sys_step (sys_run st1 l) a2 = (st2, SOk mq' mc' ms') ->
+  sm_get n (m_names (mem_of r mq' mc' ms')) = Some id.
+Proof.
+  intros Hinv Hh Hp1 E1 Hg Hnr Hp2 E2.
+  change (a1 :: l ++ [a2]) with ([a1] ++ (l ++ [a2])) in Hh. apply hist_ok_app in Hh. destruct Hh as [H1 H23].
+  apply hist_ok_app in H23. destruct H23 as [H2 H3].
+  destruct (lookup_ok_of r _ _ _ _ _ _ _ (start_lookup_ok _ _ _ _ _ _ _ _ _ _ Hinv H1 Hp1 E1)) as (names1 & _ & _ & L1 & _).
+  destruct (L1 n id Hg) as (Hrange & _ & Hrow1).
+  assert (Hsk : skip (cfg_of r) id = false) by (apply skip_cfg_of_range; lia).
+  assert (Hinv1 : inv (flag_after b [a1]) st1).
+  { replace st1 with (fst (sys_step st a1)) by (rewrite E1; reflexivity). apply sys_step_inv; assumption. }
+  pose proof (sys_run_stable r l _ st1 n id Hinv1 H2 Hrow1 Hsk Hnr) as Hrow2.
+  pose proof (sys_run_inv l _ st1 Hinv1 H2) as Hinv2.
+  assert (Hrow3 : sm_get n (p_rows (sel r (fst st2))) = Some id).
+  { replace st2 with (fst (sys_step (sys_run st1 l) a2)) by (rewrite E2; reflexivity).
+    apply (sys_step_stable _ _ _ _ _ _ Hinv2 H3 Hrow2 Hsk). intros _ new f ->. inversion Hp2. }
+  destruct (lookup_ok_of r _ _ _ _ _ _ _ (start_lookup_ok _ _ _ _ _ _ _ _ _ _ Hinv2 H3 Hp2 E2)) as (names2 & _ & _ & _ & L2).
+  apply L2; assumption.
+Qed.
+
+(* T (data): a row written under a name's ID is decoded with that name by every later start
+   whose schema still has the name *)
+Theorem decode_stable b st a1 qn cn sn st1 mq mc ms n id l a2 qn' cn' sn' st2 mq' mc' ms' :
+  inv b st -> hist_ok b (a1 :: l ++ [a2]) ->
+  prepares st a1 qn cn sn -> sys_step st a1 = (st1, SOk mq mc ms) ->
+  sm_get n (m_names mq) = Some id ->
+  never_renamed n l ->
+  prepares (sys_run st1 l) a2 qn' cn' sn' ->
+  sys_step (sys_run st1 l) a2 = (st2, SOk mq' mc' ms') ->
+  In n qn' -> decode mq' qn' id = Some n.
+Proof.
+  intros Hinv Hh Hp1 E1 Hg Hnr Hp2 E2 Hin.
+  assert (Hg2 : sm_get n (m_names mq') = Some id).
+  { apply (start_ids_stable 0 b st a1 qn cn sn st1 mq mc ms n id l a2 qn' cn' sn' st2 mq' mc' ms'); auto. }
+  pose proof Hh as Hh'. change (a1 :: l ++ [a2]) with ([a1] ++ (l ++ [a2])) in Hh'. apply hist_ok_app in Hh'. destruct Hh' as [H1 H23].
+  apply hist_ok_app in H23. destruct H23 as [H2 H3].
+  assert (Hinv1 : inv (flag_after b [a1]) st1).
+  { replace st1 with (fst (sys_step st a1)) by (rewrite E1; reflexivity). apply sys_step_inv; assumption. }
+  pose proof (sys_run_inv l _ st1 Hinv1 H2) as Hinv2.
+  destruct (start_lookup_ok _ _ _ _ _ _ _ _ _ _ Hinv2 H3 Hp2 E2) as ((_ & _ & L & _) & _).
+  destruct (L n id Hg2) as (_ & Hn & _). unfold decode. rewrite Hn.
+  replace (existsb (lex_eqb n) qn') with true; [reflexivity|].
   symmetry. apply existsb_exists. exists n. split; [exact Hin|apply lex_eqb_refl].
-Qed.
-
-(* ---------- histories without an interruption between rows and version row ---------- *)
-
-Definition fault_of (a : action) : fault := match a with AStart _ _ _ f => f | ARename _ _ f => f end.
-Definition no_ver_failure (a : action) : Prop := match fault_of a with FailVer _ => False | _ => True end.
-
-Definition sys_clean (s : sys) : Prop := clean cfg_q (s_q s) /\ clean cfg_c (s_c s) /\ clean cfg_s (s_s s).
-
-Lemma fault_for_not_ver f r : match f with FailVer _ => False | _ => True end -> fault_for f r <> RFailVer.
-Proof. destruct f; cbn; intros H; try contradiction; try discriminate. destruct (r =? r0); discriminate. Qed.
-
-Lemma act_fault_q s a : no_ver_failure a -> act_fault (act_q s a) <> RFailVer.
-Proof. destruct a; cbn; apply fault_for_not_ver. Qed.
-Lemma act_fault_c s a : no_ver_failure a -> act_fault (act_c s a) <> RFailVer.
-Proof. destruct a; cbn; intros H; [destruct (snd _); cbn; [apply fault_for_not_ver; exact H|discriminate]|discriminate]. Qed.
-Lemma act_fault_s s a : no_ver_failure a -> act_fault (act_s s a) <> RFailVer.
-Proof.
-  destruct a; cbn; intros H; [|discriminate].
-  destruct (snd _); cbn; [destruct (snd _); cbn; [apply fault_for_not_ver; exact H|discriminate]|discriminate].
-Qed.
-
-Lemma sys_clean_covers s a : sys_clean s -> sys_covers s a.
-Proof.
-  intros (Hq & Hc & Hs). split; [|split].
-  - destruct (act_q s a); cbn; auto. apply clean_covers; auto.
-  - destruct (act_c s a); cbn; auto. apply clean_covers; auto.
-  - destruct (act_s s a); cbn; auto. apply clean_covers; auto.
-Qed.
-
-Lemma sys_step_clean s a : no_ver_failure a -> sys_clean s -> sys_clean (fst (sys_step s a)).
-Proof.
-  intros Hf (Hq & Hc & Hs). destruct (sys_step_proj s a) as (Eq & Ec & Es). unfold sys_clean. rewrite Eq, Ec, Es.
-  split; [|split]; apply rstep_clean; auto using act_fault_q, act_fault_c, act_fault_s.
-Qed.
-
-Theorem clean_history_covered l : forall s, sys_clean s -> Forall no_ver_failure l -> sys_covered s l.
-Proof.
-  induction l as [|a r IH]; intros s Hc Hf; cbn; auto.
-  inversion Hf; subst. split; [apply sys_clean_covers; exact Hc|]. apply IH; auto. apply sys_step_clean; auto.
 Qed.
 
 Definition fresh : sys := mkSys (mkPers [] 0) (mkPers [] 0) (mkPers [] 0).
@@ -907,192 +869,23 @@ Proof.
   split; [|split]; apply H.
 Qed.
 
-Lemma fresh_clean : sys_clean fresh.
-Proof. split; [|split]; right; reflexivity. Qed.
-
-(* ---------- the interrupted first store (F20) ---------- *)
-
-Lemma collect_all_only c names : forall s n,
-  sm_get n (m_names (cs_mem (fold_left (collect c) names s))) <> None ->
-  sm_get n (m_names (cs_mem s)) <> None \/ In n names.
+Theorem start_lookup_after b st l a qn cn sn st' mq mc ms :
+  inv b st -> hist_ok b (l ++ [a]) -> prepares (sys_run st l) a qn cn sn ->
+  sys_step (sys_run st l) a = (st', SOk mq mc ms) ->
+  lookup_ok cfg_q mq qn (s_q (fst st')) /\ lookup_ok cfg_c mc cn (s_c (fst st')) /\ lookup_ok cfg_s ms sn (s_s (fst st')).
 Proof.
-  induction names as [|x r IH]; intros s n H; cbn in *; auto.
-  destruct (IH _ _ H) as [H1|H1]; [|right; right; exact H1].
-  unfold collect in H1. destruct (sm_get x (m_names (cs_mem s))) eqn:Ex; auto.
-  destruct (first_free _ _ _ _); cbn in H1; auto.
-  rewrite sm_get_put in H1. destruct (bytes_eq_dec n x) as [->|Hne]; [right; left; reflexivity|left; exact H1].
+  intros Hinv Hh Hp E. apply hist_ok_app in Hh. destruct Hh as [H1 H2].
+  exact (start_lookup_ok _ _ _ _ _ _ _ _ _ _ (sys_run_inv l b st Hinv H1) H2 Hp E).
 Qed.
 
-(* starting from an empty registry, whatever a Prepare leaves behind (even when interrupted
-   between rows and version row) are rows of names of its schema *)
-Lemma prepare_from_empty c p names f n id :
-  c_sys_last c < c_max c -> p_rows p = [] ->
-  sm_get n (p_rows (fst (prepare c p names f))) = Some id -> In n names.
+Theorem sys_run_ok b st l : inv b st -> hist_ok b l -> sys_ok (fst (sys_run st l)).
+Proof. intros Hinv Hh. exact (proj1 (sys_run_inv l b st Hinv Hh)). Qed.
+
+(* histories without in-process retries satisfy the sequencing condition trivially *)
+Definition is_retry (a : action) : bool := match a with ARetry _ _ _ _ => true | _ => false end.
+
+Lemma hist_ok_no_retry l : forall b, forallb (fun a => negb (is_retry a)) l = true -> hist_ok b l.
 Proof.
-  intros Hwf He Hg.
-  assert (Hrows : rows_ok c (p_rows p)) by (rewrite He; split; [constructor|split]; cbn; discriminate).
-  destruct (prepare_cases c Hwf p names f Hrows) as [[_ E]|[Hv (m0 & Hl & Hok & Hc)]].
-  - rewrite E in Hg. cbn [fst] in Hg. rewrite He in Hg. discriminate.
-  - assert (Hm0 : forall k, sm_get k (m_names m0) = None).
-    { intros k. destruct (load_spec c Hwf p Hrows Hv) as (m0' & Hl' & _ & Hread & Hnoread).
-      rewrite Hl in Hl'; inversion Hl'; subst m0'. destruct (reads_rows c p) eqn:Er.
-      - destruct (sm_get k (m_names m0)) eqn:Ek; auto. apply (Hread eq_refl) in Ek. rewrite He in Ek. destruct Ek; discriminate.
-      - rewrite (Hnoread eq_refl). reflexivity. }
-    cbn zeta in Hc. destruct Hc as [[_ E]|[(_ & _ & _ & E)|(_ & _ & E)]]; rewrite E in Hg; cbn [fst] in Hg;
-      try (rewrite He in Hg; discriminate).
-    destruct (store_fst c p (cs_mem (collect_all c m0 names)) f) as [[Ef _]|[Ef _]]; rewrite Ef in Hg;
-      [rewrite He in Hg; discriminate|].
-    destruct (collect_all_from c Hwf m0 names Hok) as (Hok' & _).
-    rewrite store_rows_get in Hg by (auto; rewrite He; constructor). rewrite He in Hg.
-    destruct (collect_all_only c names (mkCst m0 false false) n) as [H|H]; auto.
-    + unfold collect_all in Hg. destruct (sm_get n (m_names (cs_mem (fold_left (collect c) names (mkCst m0 false false))))); [discriminate|discriminate].
-    + cbn in H. rewrite Hm0 in H. contradiction.
-Qed.
-
-Lemma rstep_from_empty c p a n id :
-  c_sys_last c < c_max c -> p_rows p = [] ->
-  sm_get n (p_rows (rstep c p a)) = Some id ->
-  match a with RPrepare names _ => In n names | _ => False end.
-Proof.
-  intros Hwf He Hg. destruct a as [names f|old new f|]; cbn in *.
-  - eapply prepare_from_empty; eauto.
-  - assert (Hrows : rows_ok c (p_rows p)) by (rewrite He; split; [constructor|split]; cbn; discriminate).
-    assert (E : fst (rename c p old new f) = p).
-    { unfold rename. destruct (lex_eqb old new); [reflexivity|].
-      destruct (1 <? p_ver p) eqn:Ev; [unfold load; rewrite Ev; reflexivity|]. apply N.ltb_ge in Ev.
-      destruct (load_spec c Hwf p Hrows Ev) as (m & Hl & _ & Hread & Hnoread). rewrite Hl.
-      assert (Ho : sm_get old (m_names m) = None).
-      { destruct (reads_rows c p) eqn:Er.
-        - destruct (sm_get old (m_names m)) eqn:Ek; auto. apply (Hread eq_refl) in Ek. rewrite He in Ek. destruct Ek; discriminate.
-        - rewrite (Hnoread eq_refl). reflexivity. }
-      rewrite Ho. reflexivity. }
-    rewrite E, He in Hg. discriminate.
-  - rewrite He in Hg. discriminate.
-Qed.
-
-Definition sys_empty (s : sys) : Prop := p_rows (s_q s) = [] /\ p_rows (s_c s) = [] /\ p_rows (s_s s) = [].
-
-(* T: a first start interrupted anywhere (any failure point, any registry) is harmless when the
-   retry's schema still contains every name of the interrupted one *)
-Theorem interrupted_first_store_covered s qn1 cn1 sn1 f1 qn2 cn2 sn2 f2 :
-  sys_empty s -> incl qn1 qn2 -> incl cn1 cn2 -> incl sn1 sn2 ->
-  sys_covered s [AStart qn1 cn1 sn1 f1; AStart qn2 cn2 sn2 f2].
-Proof.
-  intros (Eq & Ec & Es) Iq Ic Is.
-  assert (Hemp : forall c p names, p_rows p = [] -> covers c p names)
-    by (intros c p names E; right; rewrite E; cbn; discriminate).
-  split; [|split; [|exact I]].
-  - split; [|split].
-    + cbn. apply Hemp; auto.
-    + destruct (act_c s (AStart qn1 cn1 sn1 f1)); cbn; auto.
-    + destruct (act_s s (AStart qn1 cn1 sn1 f1)); cbn; auto.
-  - destruct (sys_step_proj s (AStart qn1 cn1 sn1 f1)) as (Pq & Pc & Ps).
-    set (s1 := fst (sys_step s (AStart qn1 cn1 sn1 f1))) in *.
-    split; [|split].
-    + cbn. right. intros n id Hg _. rewrite Pq in Hg.
-      apply (rstep_from_empty cfg_q _ _ _ _ cfg_q_wf Eq) in Hg. cbn in Hg. apply Iq; exact Hg.
-    + destruct (act_c s1 (AStart qn2 cn2 sn2 f2)) as [names f| |] eqn:Ea; cbn; auto.
-      assert (names = cn2) by (cbn in Ea; destruct (snd _); inversion Ea; reflexivity). subst names.
-      right. intros n id Hg _. rewrite Pc in Hg.
-      apply (rstep_from_empty cfg_c _ _ _ _ cfg_c_wf Ec) in Hg.
-      cbn in Hg. destruct (snd _); [apply Ic; exact Hg|contradiction].
-    + destruct (act_s s1 (AStart qn2 cn2 sn2 f2)) as [names f| |] eqn:Ea; cbn; auto.
-      assert (names = sn2) by (cbn in Ea; destruct (snd _); [destruct (snd _)|]; inversion Ea; reflexivity). subst names.
-      right. intros n id Hg _. rewrite Ps in Hg.
-      apply (rstep_from_empty cfg_s _ _ _ _ cfg_s_wf Es) in Hg.
-      cbn in Hg. destruct (snd _); [destruct (snd _)|]; try contradiction. apply Is; exact Hg.
-Qed.
-
-(* ---------- stability across a whole history, as seen by the application ---------- *)
-
-Lemma prepare_ok_reads c p names f p' m n id :
-  c_sys_last c < c_max c -> rows_ok c (p_rows p) ->
-  prepare c p names f = (p', ROk m) -> sm_get n (m_names m) = Some id -> reads_rows c p' = true.
-Proof.
-  intros Hwf Hrows E Hg.
-  destruct (prepare_cases c Hwf p names f Hrows) as [[_ E']|[Hv (m0 & Hl & Hok & Hc)]]; [congruence|].
-  destruct (load_spec c Hwf p Hrows Hv) as (m0' & Hl' & _ & _ & Hnoread). rewrite Hl in Hl'; inversion Hl'; subst m0'.
-  cbn zeta in Hc. destruct Hc as [[_ E']|[(_ & _ & _ & E')|(_ & _ & E')]]; rewrite E' in E.
-  - discriminate.
-  - inversion E; subst p' m. destruct (reads_rows c p) eqn:Er; auto.
-    rewrite (Hnoread eq_refl) in Hg. cbn in Hg. discriminate.
-  - revert E. unfold store. destruct f; cbn; try discriminate; destruct (p_ver p =? 1) eqn:Ev; cbn; try discriminate;
-      intros E; inversion E; subst p'; unfold reads_rows; cbn; reflexivity.
-Qed.
-
-Definition never_renamed (n : bytes) (l : list action) : Prop := forall new f, ~ In (ARename n new f) l.
-
-(* T (stable, as observed): the ID a successful start returned for a name is returned again by
-   every later successful start, whatever happened in between except a Rename of that name *)
-Theorem start_ids_stable r s qn cn sn f s1 mq mc ms n id l qn' cn' sn' f' s2 mq' mc' ms' :
-  sys_ok s -> sys_covers s (AStart qn cn sn f) ->
-  sys_step s (AStart qn cn sn f) = (s1, SOk mq mc ms) ->
-  sm_get n (m_names (mem_of r mq mc ms)) = Some id ->
-  sys_covered s1 l -> (r = 0 -> never_renamed n l) ->
-  sys_covers (sys_run s1 l) (AStart qn' cn' sn' f') ->
-  sys_step (sys_run s1 l) (AStart qn' cn' sn' f') = (s2, SOk mq' mc' ms') ->
-  sm_get n (m_names (mem_of r mq' mc' ms')) = Some id.
-Proof.
-  intros Hok Hcov E Hg Hcl Hnr Hcov' E'.
-  assert (Hok1 : sys_ok s1) by (replace s1 with (fst (sys_step s (AStart qn cn sn f))) by (rewrite E; reflexivity); apply sys_step_ok; auto).
-  destruct (start_inv _ _ _ _ _ _ _ _ _ E) as (Eq & Ec & Es).
-  destruct (start_lookup_ok _ _ _ _ _ _ _ _ _ Hok Hcov E) as (Lq & Lc & Ls).
-  destruct Hok as (Hq & Hc & Hs).
-  assert (H1 : reads_rows (cfg_of r) (sel r s1) = true /\ sm_get n (p_rows (sel r s1)) = Some id /\ skip (cfg_of r) id = false).
-  { unfold cfg_of, sel, mem_of in *. destruct (r =? 0); [|destruct (r =? 1)].
-    - destruct Lq as (_ & _ & L). destruct (L n id Hg) as (Hr & _ & Hrow).
-      split; [eapply prepare_ok_reads; eauto using cfg_q_wf|split; [exact Hrow|apply skip_in_range; lia]].
-    - destruct Lc as (_ & _ & L). destruct (L n id Hg) as (Hr & _ & Hrow).
-      split; [eapply prepare_ok_reads; eauto using cfg_c_wf|split; [exact Hrow|apply skip_in_range; lia]].
-    - destruct Ls as (_ & _ & L). destruct (L n id Hg) as (Hr & _ & Hrow).
-      split; [eapply prepare_ok_reads; eauto using cfg_s_wf|split; [exact Hrow|apply skip_in_range; lia]]. }
-  destruct H1 as (Hr1 & Hg1 & Hsk).
-  destruct (sys_run_stable r l s1 n id Hok1 Hcl Hr1 Hg1 Hsk Hnr) as [Hg2 Hr2].
-  apply (start_returns_stored (sys_run s1 l) qn' cn' sn' f' s2 mq' mc' ms' r n id); auto. apply sys_run_ok; auto.
-Qed.
-
-(* T (data): a row written under a name's ID is decoded with that name by every later start
-   whose schema still has the name *)
-Theorem decode_stable s qn cn sn f s1 mq mc ms n id l qn' cn' sn' f' s2 mq' mc' ms' :
-  sys_ok s -> sys_covers s (AStart qn cn sn f) ->
-  sys_step s (AStart qn cn sn f) = (s1, SOk mq mc ms) ->
-  sm_get n (m_names mq) = Some id ->
-  sys_covered s1 l -> never_renamed n l ->
-  sys_covers (sys_run s1 l) (AStart qn' cn' sn' f') ->
-  sys_step (sys_run s1 l) (AStart qn' cn' sn' f') = (s2, SOk mq' mc' ms') ->
-  In n qn' -> decode mq' qn' id = Some n.
-Proof.
-  intros Hok Hcov E Hg Hcl Hnr Hcov' E' Hin.
-  assert (Hok1 : sys_ok s1) by (replace s1 with (fst (sys_step s (AStart qn cn sn f))) by (rewrite E; reflexivity); apply sys_step_ok; auto).
-  apply (decode_roundtrip (sys_run s1 l) qn' cn' sn' f' s2 mq' mc' ms' n id); auto; [apply sys_run_ok; auto|].
-  apply (start_ids_stable 0 s qn cn sn f s1 mq mc ms n id l qn' cn' sn' f' s2 mq' mc' ms'); auto.
-Qed.
-
-(* ---------- registries that read their rows whether or not the version row exists ----------
-   (c_needver = false: the shape of load() after the repair proposed for F20; vacuous for the
-   code as pinned, where the translator reports c_needver = true) *)
-
-Lemma covers_when_always_read c p names : c_needver c = false -> p_ver p <= 1 -> covers c p names.
-Proof.
-  intros Hn Hv. left. unfold reads_rows. rewrite Hn. cbn.
-  destruct (p_ver p =? 1) eqn:E1; auto. apply N.eqb_neq in E1.
-  replace (p_ver p =? 0) with true; [reflexivity|]. symmetry. apply N.eqb_eq. lia.
-Qed.
-
-Definition ver_le1 (s : sys) : Prop := p_ver (s_q s) <= 1 /\ p_ver (s_c s) <= 1 /\ p_ver (s_s s) <= 1.
-
-Theorem always_read_histories_covered l : forall s,
-  c_needver cfg_q = false -> c_needver cfg_c = false -> c_needver cfg_s = false ->
-  ver_le1 s -> sys_covered s l.
-Proof.
-  induction l as [|a r IH]; intros s Nq Nc Ns (Vq & Vc & Vs); cbn; auto. split.
-  - split; [|split].
-    + destruct (act_q s a); cbn; auto. apply covers_when_always_read; auto.
-    + destruct (act_c s a); cbn; auto. apply covers_when_always_read; auto.
-    + destruct (act_s s a); cbn; auto. apply covers_when_always_read; auto.
-  - apply IH; auto. destruct (sys_step_proj s a) as (Eq & Ec & Es). unfold ver_le1. rewrite Eq, Ec, Es.
-    split; [|split].
-    + destruct (rstep_ver_cases cfg_q (s_q s) (act_q s a)) as [E|E]; rewrite E; lia.
-    + destruct (rstep_ver_cases cfg_c (s_c s) (act_c s a)) as [E|E]; rewrite E; lia.
-    + destruct (rstep_ver_cases cfg_s (s_s s) (act_s s a)) as [E|E]; rewrite E; lia.
+  induction l as [|a r IH]; intros b H; cbn in *; auto.
+  apply andb_true_iff in H. destruct H as [Ha Hr]. destruct a; cbn in Ha; try discriminate; apply IH; exact Hr.
 Qed.
